@@ -12,1431 +12,1212 @@ Definition show_fres (r : fres) : string :=
   end.
 Definition check (rs : list rune) : string := digest (show_fres (format_res rs)).
 Definition full (rs : list rune) : string := show_fres (format_res rs).
-Eval vm_compute in ("<<<M32>>>" ++ check (runes_of_ascii "packet Logon{
-f32a
-// " ++ [27880; 37322]%N ++ runes_of_ascii "
-// " ++ [128512]%N ++ runes_of_ascii " emoji
-@lengthOf(
-x ) `u8 x,` ,
-@calculatedFrom(
-    // `tick` ""quote"" 'q'
-    ""a\""b"" // trailing space 
-) @rightPad( '0'
-)repeat int8
-u128`doc` , match packetx //x
-as
-a1 { [
-    // " ++ [27880; 37322]%N ++ runes_of_ascii "
-    65535, """ ++ [128512]%N ++ runes_of_ascii """ ]
-: packetx	,00 : x
-,
-// c
-// @lengthOf(
-} ,
-    @calculatedFrom(""" ++ [28040; 24687]%N ++ runes_of_ascii """ )match
-leftPad as lengthOf /// triple
-{ 0
-: packetx, [
-    ""{,}"" // `tick` ""quote"" 'q'
-,  0,
-""CRC32"" , 4294967296
-]
-    :
-    // @lengthOf(
-    int
-, """ ++ [28040; 24687]%N ++ runes_of_ascii """:A, [ 7
-, 0  ,
-""abc"" ,""CRC32"" ,""x y""// c
-,
-    //	t
-    255
-// a // b
-// " ++ [27880; 37322]%N ++ runes_of_ascii "
-, 007
-, 1 // @lengthOf(
-]	: _x } ,matchKey@lengthOf(tag ) , string BodyLength
-    @calculatedFrom( ""packet""	)
-/// triple
-// a // b
-, As @lengthOf(i8i8 ) `a\`
-,int16 A@lengthOf( tag ) `// not a comment`
-// " ++ [128512]%N ++ runes_of_ascii " emoji
-//
-,
-}
-MetaData metadata
-//	t
-// " ++ [128512]%N ++ runes_of_ascii " emoji
-{
-u32
-// c
-// a // b
-a1 ,  u16 BodyLength `tab	here` // " ++ [128512]%N ++ runes_of_ascii " emoji
-, int8
-lengthOf// " ++ [27880; 37322]%N ++ runes_of_ascii "
-,
-    // " ++ [128512]%N ++ runes_of_ascii " emoji
-    trueish x_y_z ,charz leftPad //
-,} MetaData leftPad {	} packet rootA
-{ match
-    x
-as
-    int
-    {0123456789// `tick` ""quote"" 'q'
-: u8x
-    ,
-    0123456789
-    :  tag
-    ,	} , @lengthOf(A )
-repeat
-f32 body `a\` ,// trailing space 
-i64	rootA
-    // packet A { u8 x, }
-    , @tag(007 ) match // @lengthOf(
-Logon as metadata
-    {
-[""a	b"", // `tick` ""quote"" 'q'
-65535
-, ""abc"", 3 ,
-10 , ""\" ++ [233]%N ++ runes_of_ascii """
-]
-    // packet A { u8 x, }
-    :u128, 7
-: // packet A { u8 x, }
-zchar, 7 : stringy
-    , 007
-    :  string_ , """" : //x
-a1 , }
-,// c
-i8
-lengthOf// trailing space 
-, float64 pack @calculatedFrom(""" ++ [128512]%N ++ runes_of_ascii """
-) ,  repeatCount @calculatedFrom(
-""// no comment"") , float // c
-string_ , @leftPad // c
-(
-    '0' ) @calculatedFrom( ""a	b"" )@calculatedFrom( ""\" ++ [233]%N ++ runes_of_ascii """ ) // `tick` ""quote"" 'q'
-match
-    Logon as
-    // @lengthOf(
-    msg_type {	255 : roots, 255: x_y_z
-// c
-// packet A { u8 x, }
-,	""it's""  :
-len,[00 ,
-    // packet A { u8 x, }
-    42
-    , ""\n"" ,007
-    , ""1""
-,//
-""a\\"" , ""a\\""] :
-f32a [
-    42,	""a	b""
-/// triple
-//
-]  :
-    Header, [ """" , ""\" ++ [233]%N ++ runes_of_ascii """// `tick` ""quote"" 'q'
-]
-    : //
-tag , } , // packet A { u8 x, }
-int , }
-    options // c
-{uint8x = // @lengthOf(
-""\n"" ;}
-")).
-Eval vm_compute in ("<<<M1094>>>" ++ check (runes_of_ascii "packet/// triple
-u128 {@calculatedFrom(
-""" ++ [128512]%N ++ runes_of_ascii """ )
-/// triple
-// c
-i64 charz `tab	here` ,
-    @lengthOf(
-Header ) float32 a1@calculatedFrom(""" ++ [128512]%N ++ runes_of_ascii """) , repeat string a1
-`it's`
-    , @tag( 42
-) @tag(
-7 )zchar stringy ,
-float32	calculatedFrom `
-`,} MetaData x{ // " ++ [27880; 37322]%N ++ runes_of_ascii "
-Header x_y_z`
-` ,int64
-options1
-`it's`, char[]
-chars, u16 options1
-,u16 calculatedFrom `tab	here` // `tick` ""quote"" 'q'
-, char[	0123456789 ] u , } root packet uint8x { @rightPad (	'\x00')
-    char[	7]asx , int64
-Pad @lengthOf(
-As)`crlf
-line`, msg_type  @calculatedFrom(
-    ""`tick`"" ) ,
-@calculatedFrom(// a // b
-""a\\"" ) @rightPad ( ' '
-    )repeatCount	`line1
-line2`
-, @tag(3 ) int32 As `two words`
-,@tag( 1) @calculatedFrom( ""`tick`""  ) @lengthOf( f32a )match zchar
-as u {0123456789: leftPad	""\" ++ [233]%N ++ runes_of_ascii """:  _x  , 7 : MetaDataX
-, [ 4294967296 ]
-:	stringy, 7:uint8x } ,@leftPad (
-    ) string Foo
-@lengthOf(MetaDataX ) ``, //
-match calculatedFrom as A
-{ [ 255
-, 7 ,
-1
-, //x
-1
-    , 42,007 ,
-007
-    ]: A , [// `tick` ""quote"" 'q'
-""a\\"",	""it's"",""1""
-,	00 ,
-    """ ++ [128512]%N ++ runes_of_ascii """,
-""{,}"" ,
-42]
-:
-    calculatedFrom	, ""it's""	:
-    f32a ,
-},
-repeat char[]
-i8i8,  leftPad
-    ,
-} packet _x { char[] Z9_  ,
-int64 options1
-    @calculatedFrom( """"// trailing space 
-)`u8 x,`
-,
-    // `tick` ""quote"" 'q'
-    @calculatedFrom( ""// no comment"" ) match tag
-    as roots { [ // packet A { u8 x, }
-""abc"" ] : options1	65535: o,	""// no comment"" : f32a// c
-,""packet""
-:uint8x ,  } ,  leftPad@calculatedFrom(""" ++ [233]%N ++ runes_of_ascii "t" ++ [233]%N ++ runes_of_ascii """ ) ,
-    repeat x
-    ,zchar[ 65535
-] float `line1
-line2` , i16 uint8x,	zchar[ 10
-] uint8x // packet A { u8 x, }
-,
-@calculatedFrom(""abc"") repeat	x
-{ trueish
-    `tab	here`
-,
-}	, @tag( 1
-) char[ 3 ]
-// packet A { u8 x, }
-// a // b
-metadata`say ""hi""` , }
-")).
-Eval vm_compute in ("<<<M622>>>" ++ check (runes_of_ascii "
-packet
-    Logon {
-@tag( 007 )  packetx {
-    charz
-    @calculatedFrom( ""\n"") , } , } packet u128
-    { @calculatedFrom( ""1""
-//x
-// packet A { u8 x, }
-)_x@calculatedFrom( """" ) ,} options { matchKey= 0123456789 ; len = ""1"" ;//x
-Z9_= 255  Packet= '\x00' // `tick` ""quote"" 'q'
-}	root packet// packet A { u8 x, }
-Z9_ {
-@calculatedFrom(
-//
-// trailing space 
-""" ++ [233]%N ++ runes_of_ascii "t" ++ [233]%N ++ runes_of_ascii """ ) char[ 00 ]x_y_z @lengthOf( T )// c
-,As @lengthOf(
-    asx ) `tab	here` , x matchKey `{ , }`	, @leftPad ( )  @rightPad
-    () @lengthOf(a1 )float
-@lengthOf( o )`doc`
-, } root packet int
-// `tick` ""quote"" 'q'
-// c
-{@lengthOf(BodyLength ) repeat //
-zchar[
-42]
-u8x
-    `tab	here`
-,
-@leftPad  (
-    ' ' ) @calculatedFrom(""a\\"") repeat  char[
-    007
-// a // b
-//	t
-] matchKey `tab	here` , Header @lengthOf( A ), repeat roots { repeat u
-    // @lengthOf(
-    { match calculatedFrom as o {
-    255
-:metadata } , match
-BodyLength as o {""a	b"" :lengthOf // @lengthOf(
-, },string	uint8x , // c
-char[]
-    lengthOf// " ++ [27880; 37322]%N ++ runes_of_ascii "
-,}
-    , match asx as
-    pack {
-    00
-:metadata
-// `tick` ""quote"" 'q'
-// @lengthOf(
-,
-[""1"", ""abc"" , """ ++ [28040; 24687]%N ++ runes_of_ascii """
-    ,255
-    ,	4294967296 , 65535,
-255, // a // b
-255  ]: //x
-o ,
-[ 00
-    ,""it's""	, 3
-/// triple
-// c
-,""" ++ [128512]%N ++ runes_of_ascii """ // " ++ [27880; 37322]%N ++ runes_of_ascii "
-]:calculatedFrom , [
-00,
-""{,}""
-    ] : matchKey ,	""abc""
-// trailing space 
-//x
-: // @lengthOf(
-u ""x y"" : i8i8 // " ++ [27880; 37322]%N ++ runes_of_ascii "
-, }, }, crc @lengthOf(
-leftPad ) `{ , }` , stringy @calculatedFrom( ""x y"" ) `// not a comment` , uint16 calculatedFrom , }
-")).
-Eval vm_compute in ("<<<M558>>>" ++ check (runes_of_ascii "// " ++ [27880; 37322]%N ++ runes_of_ascii "
-packet int {
-@tag( // a // b
-0)@rightPad ('0')@calculatedFrom(
-""CRC32"" ) zchar[ 10 ]
-    //x
-    float ,
-    char[
-1 // " ++ [27880; 37322]%N ++ runes_of_ascii "
-]float `
-`, int8
-i64_ @lengthOf( // packet A { u8 x, }
-u128 )
-    `{ , }` ,  uint32 rootA , float32 _x , u8 T `` , MetaDataX
-x
-    `it's` , char[] calculatedFrom , // @lengthOf(
-uint64
-    // a // b
-    i8i8`// not a comment`	,
-    } MetaData lengthOf {
-// trailing space 
-// `tick` ""quote"" 'q'
-leftPad leftPad ,u32 a1 `it's` , Pad Packet ,//	t
-uint8x leftPad,  falsey roots`// not a comment`
-    , }
-packet A { calculatedFrom @calculatedFrom( ""CRC32"" ) `` ,repeat matchKey {
-    string
-chars`two words` , // trailing space 
-stringy @calculatedFrom( //	t
-""1""),
-// @lengthOf(
-// " ++ [128512]%N ++ runes_of_ascii " emoji
-} // c
-, // packet A { u8 x, }
-match trueish as float
-/// triple
-// " ++ [27880; 37322]%N ++ runes_of_ascii "
-{  3:int /// triple
-[
-    // trailing space 
-    """ ++ [233]%N ++ runes_of_ascii "t" ++ [233]%N ++ runes_of_ascii """  ,	""\n"" ]: Logon// @lengthOf(
-, 7: metadata ,
-007 :
-    //
-    u, },  @lengthOf(  body )char[]Logon //
-`tab	here` , // trailing space 
-@calculatedFrom( ""\" ++ [233]%N ++ runes_of_ascii """ )  charz// c
-@lengthOf( i64_  ), repeat  i64 f32a
-    ,repeat
-u32	Foo `
-` , @calculatedFrom(""1"" )
-    repeat int	{repeat trueish
-{ // trailing space 
-repeat f64 Foo ,  },
-} ,// c
-char[]	matchKey @lengthOf(
-x_y_z) , @rightPad
-    ( ) repeat int64
-As //	t
-,}
-")).
-Eval vm_compute in ("<<<M4126>>>" ++ check (runes_of_ascii "options
-
-{
-
-    Pad //x
-    	=
-"""" ; 	 // trailing space 
-zchar =char[65535
-]
-    Foo// c
-    	=
-1
-
-    ;}
-packet
-    asx
-	{
-	repeat char u128 
-
-    // " ++ [27880; 37322]%N ++ runes_of_ascii "
-    //x
-    ,
-
-i16 Pad
-, x
-    @lengthOf(
-
-Packet ) `
-` ,
-
-@tag( 10
-	)repeat  float32 
-i64_
-    `// not a comment`
-, 
-@calculatedFrom(""""
-
-) @calculatedFrom(  """" )@calculatedFrom( ""it's""
-
-)
-	repeat BodyLength
-    Foo
-`` ,/// triple
-    matchKey
-As	`say ""hi""`
-,
-@rightPad (	' '
-
-    )	i8i8
-
-    BodyLength
-
-`" ++ [233]%N ++ runes_of_ascii "`
-, } 
-packet
-	Pad {
-
-@tag(
-    10)
-match o// a // b
-		as
-zchar { [
-
-""abc""
-
-    ]
-:
-
-i8i8
-    ,""// no comment"" :	T ,
-
-} 
-,  u128
-	f32a
-
-`{ , }`
-
-    ,
-    @rightPad (
-	)
-
-    float64
-
-Packet
-@lengthOf(chars
-    )
-    `it's`,	@rightPad
-(
-
-    '0'/// triple
-	) repeat zchar Packet `" ++ [28040; 24687; 31867; 22411]%N ++ runes_of_ascii "`
-	,
-
-@tag(
-
-00 
-// a // b
-  /// triple
-    	) 
-@rightPad('0')
-	match
-	u
-	as	pack
-    {
-""" ++ [28040; 24687]%N ++ runes_of_ascii """	:	repeatCount
-
-""abc""
-
-    :  Foo
-
-    7
-    : A 
-,
-""\" ++ [233]%N ++ runes_of_ascii """  // packet A { u8 x, }
-
-  :	_x  ,
-    } ,
-As
-
-@lengthOf(int )
-        //
-	// " ++ [128512]%N ++ runes_of_ascii " emoji
-  ,
-    char[
-7 ] rootA @lengthOf(
-
-    leftPad)
-
-`{ , }`
-, 
-repeat
-    f64
-
-    x  ,  @calculatedFrom(  """ ++ [128512]%N ++ runes_of_ascii """) char[]
-    u128
-,
-
-    }
-")).
-Eval vm_compute in ("<<<M4284>>>" ++ check (runes_of_ascii "packet Logon	{@leftPad ( '0' 
-)@calculatedFrom(
-""CRC32"")
-match x_y_z
-as calculatedFrom
-	{
-[ 
-    // trailing space 
-      // " ++ [128512]%N ++ runes_of_ascii " emoji
-
-  65535 , 
-10
-
-    ]
-
-    :
-    asx
-0	:
-    BodyLength, 
-} 
-//
-		// a // b
-, @lengthOf(
-metadata )
-int16 leftPad
-
-    , match
-
-charz  as
-	i8i8 {	[
-    65535 // a // b
-    ]:
-    repeatCount 
-,
-
-""CRC32"":
-
-Packet ,
-	""a\""b""
-    :Z9_
-	,  00: falsey  ,
-7:
-falsey	,
-
-} , // " ++ [27880; 37322]%N ++ runes_of_ascii "
-@lengthOf(
-
-body )
-i32
-	i8i8 `two words`
-, @calculatedFrom(
-
-""`tick`""
-    )body	{  zchar[
-	0  ]
-    BodyLength `doc`
-,
-
-    u `
-` 
-,  } , 
-@tag(
-    0123456789
-
-    )
-@leftPad
-
-    ( '\x00'  ) @calculatedFrom(
-
-""a	b"" ) match 
-As
-as 
-x_y_z  {
-""" ++ [128512]%N ++ runes_of_ascii """
-:
-
-i64_
-
-    ,0123456789 : Foo ,
-	65535
-: matchKey	,
-
-65535
-
-:	lengthOf 4294967296// a // b
-
-: f32a
-,}
-, zchar[  0 ]  string_@lengthOf( packetx
-)`" ++ [233]%N ++ runes_of_ascii "`
-
-,	@calculatedFrom( 
-""x y""
-
-    )
-    BodyLength {
-char[
-
-    1	]
-	int
-,f32a
-	,
-repeat
-	Pad
-tag `say ""hi""`
-,} ,  
-  //x
-
-	zchar[ 
-        // `tick` ""quote"" 'q'
-
-0 ]  Foo
-@calculatedFrom( ""// no comment"")
-
-, @tag(
-00)u16
-roots	`it's` , 
-} root
-
-    packet
-	roots {
-
-}")).
-Eval vm_compute in ("<<<M729>>>" ++ check (runes_of_ascii "
-MetaData
-charz{
-zchar[  3 ]Z9_ ,u8 a1
-    ,
-repeatCount metadata ,
-}options
-// trailing space 
-// @lengthOf(
-{ u
-=zchar[ 0123456789 ]; } //
-options
-    //
-    { T = 1	;
-    }
-packet
-_x { a1 @lengthOf(	falsey  ) ,
-    @leftPad(
-// packet A { u8 x, }
-// trailing space 
-'\x00'
-) @leftPad ( '0' ) @leftPad //
-( '0' ) repeat f32
-Header
-    `{ , }` ,@tag(
-    3	) o { repeat
-    //
-    f32a {
-    repeat //	t
-string o , Pad
-@lengthOf(stringy	)`u8 x,`, repeat zchar
-A
-    ,	repeat i8i8 ,
-}
-,
-uint8x
-    @lengthOf(zchar  )`two words` , match asx	as repeatCount { 255 :
-    u128 , ""`tick`"" //	t
-:calculatedFrom""\" ++ [233]%N ++ runes_of_ascii """ :
-    zchar
-    , 1 :f32a,
-    4294967296:  u128 ,""// no comment""  :Pad,} ,} , @tag( 255
-) // c
-chars { As Z9_
-    `u8 x,`,}
-    ,  @leftPad	(
-'\x00' )match uint8x as uint8x {""a\""b"": // " ++ [27880; 37322]%N ++ runes_of_ascii "
-charz , } , len @lengthOf(	i8i8 ) ,}
-    options { a1 =
-//x
-// trailing space 
-1
-pack = // " ++ [27880; 37322]%N ++ runes_of_ascii "
-false /// triple
-; // trailing space 
-Z9_ =
-// " ++ [27880; 37322]%N ++ runes_of_ascii "
-// `tick` ""quote"" 'q'
-' 'pack=
-// packet A { u8 x, }
-// trailing space 
-0123456789 }
-")).
-Eval vm_compute in ("<<<M3561>>>" ++ check (runes_of_ascii "  options
-	//
-// packet A { u8 x, }
-  {  MetaDataX
-	=
-    '0';
-
-Logon  = false ;
-
-    int  //	t
-    =
-'0'_x= 
-// trailing space 
-  //	t
-	""x y"" 
-
-//	t
-		/// triple
-
-;
-    }
-packet tag {  @tag( 	 /// triple
-10 )
-    repeat
-	msg_type
-	,match x
-as 
-Foo	{""x y""
-: body  ,  },
-@tag(
-0) repeat char[
-
-7 ]options1
-    , repeat
-	falsey {int8  options1 ,i8i8`crlf
-line` , u16// " ++ [27880; 37322]%N ++ runes_of_ascii "
-
-  f32a
-@calculatedFrom( 
-""// no comment""	// @lengthOf(
-)  ,}
-
-    ,@calculatedFrom( 
-""{,}""	// " ++ [128512]%N ++ runes_of_ascii " emoji
-    )
-
-    uint32	repeatCount
-,
-    msg_type
-@calculatedFrom( ""it's"" 
-)  //
-	`crlf
-line`  , @tag(	// `tick` ""quote"" 'q'
-  00	) match 
-T
-as  options1
-	{
-    4294967296
-	:
-
-    repeatCount
-
-, }  , 
-      // @lengthOf(
-//	t
-} 
-
-// trailing space 
-MetaData msg_type{	Foo  u  ,
-char[] Pad	`
-`	,
-BodyLength
-
-As  ,
-
-    char[
-    007 ]
-calculatedFrom /// triple
-	`a\`,
-
-    //x
-  } MetaData	msg_type
-
-{	}
-    packet trueish
-
-    {T
-// a // b
-@lengthOf(
-	pack 
-)`crlf
-line` ,  } ")).
-Eval vm_compute in ("<<<M3647>>>" ++ check (runes_of_ascii "packet o
-
-{	// trailing space 
-  body
-    {	string options1	@lengthOf(
-	int
-    ), 
-	// " ++ [27880; 37322]%N ++ runes_of_ascii "
-	repeat	u {match
-    tag  as BodyLength
-
-    {
-	[
-
-    """ ++ [128512]%N ++ runes_of_ascii """
-
-,	/// triple
-
-	""`tick`""
-, 
-    // @lengthOf(
-  ""packet""  ,
-
-    ""a\\""
-
-    ,
-
-    65535  ,
-	0123456789	// trailing space 
-	]:
-	u 
-	    // `tick` ""quote"" 'q'
-	// c
-  	""a\\""
-
-:rootA,
-	""" ++ [128512]%N ++ runes_of_ascii """
-	:
-	Foo
-3
-
-    : 
-uint8x,	}
-,
-
-match leftPad
-
-    as	// `tick` ""quote"" 'q'
-
-	a1
-
-    {
-1
-:  //	t
-	  Header,  }  , },
-} ,	chars
-
-    ,
-repeatCount body  
-      //	t
-	// " ++ [128512]%N ++ runes_of_ascii " emoji
-		`a\`
-
-,
-} packet	metadata  {	@rightPad
-
-('0' 	 // " ++ [27880; 37322]%N ++ runes_of_ascii "
-)
+Eval vm_compute in ("<<<M1232>>>" ++ check (runes_of_ascii "packet u {
     @leftPad
-(//x
-  	'0')@calculatedFrom(	""packet"" )	match
-	o 
-as
-
-Logon { """"
-:
-    A	, [  007 	 // c
-		,  7 ,
-	1
-,	""""	// trailing space 
-,
-	42	,	""a	b"" ]
-: 
-A""it's""
-	: _x ,
-
-    },
-	@lengthOf(  //x
-Header
-
-)
-    char[3
-]i8i8  @lengthOf(int
-    ) 
-,
-char[]Packet
-@calculatedFrom(""a	b"")	,
-
-    leftPad,}
-    packet
-charz
-
-{
-	} ")).
-Eval vm_compute in ("<<<M307>>>" ++ check (runes_of_ascii "options {
-    string_	= zchar[ 00
-    ]
-;}
-    packet falsey { @lengthOf( float	) string o // c
-,repeat msg_type , match MetaDataX as _x
-    { 3: Pad ,
-    }, leftPad@lengthOf(i8i8 //
-) , @tag(
-0123456789
-    )
-    i16 Packet `
-`
-,o pack `tab	here` ,zchar[ 10
-] int
-    , int16 Foo
-//	t
+( '\x00' ) match
+    // @lengthOf(
+    pack
+as	Logon {""" ++ [28040; 24687]%N ++ runes_of_ascii """  : As ,""`tick`""
+    : asx// " ++ [27880; 37322]%N ++ runes_of_ascii "
+, 0 : float} ,
+// @lengthOf(
 // " ++ [128512]%N ++ runes_of_ascii " emoji
-@calculatedFrom(
-    ""CRC32"" )
-`u8 x,` , match f32a as	u8x
-{[ ""{,}""] : T, [ ""1""
-, 65535 ,3 , 0 ,/// triple
-""`tick`""
-    , 0123456789 ,""" ++ [128512]%N ++ runes_of_ascii """ , ""a\\"" ] :uint8x  , 255 : a1  , ""a	b""	: falsey """ ++ [28040; 24687]%N ++ runes_of_ascii """ : x
-    // " ++ [128512]%N ++ runes_of_ascii " emoji
-    , //	t
-[
-    ""packet""
-// c
+string trueish@calculatedFrom(""a	b"") , // " ++ [27880; 37322]%N ++ runes_of_ascii "
+match matchKey as
+// @lengthOf(
 //	t
-,3
-    ]
-:
-int , } ,
-repeat Foo /// triple
-{  zchar[1
-]body ``  , roots
-    rootA ,	char[ 0] rootA `doc`, }	,
-    }// `tick` ""quote"" 'q'
-options{
-    } options { Header = int16
-; roots = false ; repeatCount/// triple
-=
-    uint8; stringy
-=	""x y"" ;leftPad = ""it's"";
-    } MetaData u {	string_// trailing space 
-Header
-, zchar[ 3 ] i64_, }
-")).
-Eval vm_compute in ("<<<M1159>>>" ++ check (runes_of_ascii "root packet T
-    {
-@tag(0
-// c
-// `tick` ""quote"" 'q'
+options1{
+//x
+/// triple
+00 :
+lengthOf
+// @lengthOf(
+//x
+} , match
+roots as Header
+{
+    42
+    :
+    string_
+,
+[ 10 ,
+""a\""b"" ,
+    ""\" ++ [233]%N ++ runes_of_ascii """ ,""\" ++ [233]%N ++ runes_of_ascii """  ,
+""CRC32"" ,""1"" , ""it's""
+// " ++ [27880; 37322]%N ++ runes_of_ascii "
+// trailing space 
+, ""abc"" ]
+    :
+lengthOf , ""CRC32"" :  As }, char[] falsey , //	t
+chars
+@lengthOf( a1
 )
-u64
-int
+    //
+    , @tag( 255 )
+@lengthOf(x )	match metadata as // " ++ [128512]%N ++ runes_of_ascii " emoji
+rootA {007:
+trueish ,	00 :
+metadata , [ 0123456789] : x_y_z ,0 : Logon }
+    ,@leftPad ('\x00' )
+    zchar[ 1 ]pack `" ++ [233]%N ++ runes_of_ascii "`
+, @leftPad
+( )
+    match x_y_z	as	Z9_ {
+// a // b
+//x
+""" ++ [128512]%N ++ runes_of_ascii """ :leftPad } // packet A { u8 x, }
+,  repeat	Z9_	`tab	here` , // trailing space 
+} options
 // `tick` ""quote"" 'q'
+// " ++ [128512]%N ++ runes_of_ascii " emoji
+{ uint8x
+    = string	;
+}MetaData
+    // packet A { u8 x, }
+    MetaDataX
+    {
+    i64_ uint8x ,
+    zchar[
+0 ]float
+,char[] packetx // c
+`it's`,
+    }
+root
+packet
+crc {
+@tag(
+1 ) i64_ // @lengthOf(
+@calculatedFrom(
+    """ ++ [233]%N ++ runes_of_ascii "t" ++ [233]%N ++ runes_of_ascii """
+),//x
+@calculatedFrom( ""\n"" ) @calculatedFrom( ""it's"")@calculatedFrom( ""a\\""
+    ) chars
+uint8x , @tag(7)match Logon as
+    string_ { 3 : a1 , // " ++ [128512]%N ++ runes_of_ascii " emoji
+}// trailing space 
+, int16 i64_`
+`
+    , @tag(
+1 )
+falsey T
+, } root packet Foo { // trailing space 
+repeat // `tick` ""quote"" 'q'
+zchar{ i64_
+@calculatedFrom( //x
+""" ++ [233]%N ++ runes_of_ascii "t" ++ [233]%N ++ runes_of_ascii """ ) `line1
+line2`, match matchKey as
+zchar {
+    ""1"": As	[
+0 ]
+// a // b
 //
-, match rootA as BodyLength { ""it's"" : o , 10: int // a // b
-, ""packet"" : string_, [""abc"" // `tick` ""quote"" 'q'
-, 3
+: f32a
+    , [ ""x y"" ] // packet A { u8 x, }
+: body , ""it's""
+: _x , [ """ ++ [28040; 24687]%N ++ runes_of_ascii """ ,007
+]
+    :matchKey
+    ""x y"" : x_y_z
+, }
+,
+    zchar[ 7 ] metadata @lengthOf(_x )`// not a comment`	, float  @lengthOf(
+    matchKey /// triple
+) ,	}
+, packetx
+@calculatedFrom( ""// no comment""	)  , roots @lengthOf(falsey ), // " ++ [128512]%N ++ runes_of_ascii " emoji
+u8
+calculatedFrom
+    `{ , }` ,
+char[ 10 ]repeatCount // `tick` ""quote"" 'q'
+`crlf
+line` , @lengthOf(
+float//x
+)
+int16 int `two words` , repeat
+u64 x
+, i8i8
+@lengthOf(Packet )
+`" ++ [28040; 24687; 31867; 22411]%N ++ runes_of_ascii "`
+, }")).
+Eval vm_compute in ("<<<M1073>>>" ++ check (runes_of_ascii "
+packet uint8x { @lengthOf(i64_ // trailing space 
+) calculatedFrom {i32 Foo	@lengthOf( pack),
+// " ++ [27880; 37322]%N ++ runes_of_ascii "
+// " ++ [128512]%N ++ runes_of_ascii " emoji
+} ,@leftPad
+    (
+'\x00' ) repeat A `it's` //	t
+, // a // b
+@rightPad ( '\x00')Header@calculatedFrom(""" ++ [28040; 24687]%N ++ runes_of_ascii """ ) , @calculatedFrom( ""// no comment""	) @tag(
+0123456789) @tag(  7
+) options1 { match	u	as lengthOf { 10: lengthOf
+    ,/// triple
+""a\\""
+:
+    As//x
+,
+} ,
+options1 roots	`{ , }` , },// @lengthOf(
+repeat o
+    //x
+    `" ++ [28040; 24687; 31867; 22411]%N ++ runes_of_ascii "` , @tag(
+42) @calculatedFrom(""" ++ [233]%N ++ runes_of_ascii "t" ++ [233]%N ++ runes_of_ascii """
+)	int16 BodyLength	, repeat	Logon T`// not a comment` ,repeat x string_	, } MetaData len
+    { Header lengthOf `// not a comment` , } packet metadata	{ roots
+    // " ++ [27880; 37322]%N ++ runes_of_ascii "
+    @lengthOf(asx ), @tag(
+    65535 )
+string Header
+@calculatedFrom(  """ ++ [28040; 24687]%N ++ runes_of_ascii """ )
+`
+` , @lengthOf(As ) @lengthOf( string_ ) @leftPad	(
+)
+    repeat char[1] body  , @calculatedFrom( ""a\""b"" )
+match u128 as
+Pad{
+""\" ++ [233]%N ++ runes_of_ascii """ : float  [
+    7 // " ++ [128512]%N ++ runes_of_ascii " emoji
+] :
+    Packet
+, 10 : i8i8	,
+    // trailing space 
+    },@tag( 255)
+    f64 a1 @calculatedFrom( // a // b
+""a\""b"" )
     ,
-    0123456789 ,
-    007 ,7 , //
-3
-    ,007
-    ] : int,
-    } , match i64_ as
+@lengthOf( falsey
+)// trailing space 
+MetaDataX@lengthOf(MetaDataX)
+, @tag(42
+)
+    char[	007 ] x_y_z	,}MetaData Z9_{
+f32 MetaDataX `{ , }` , zchar[10
+    ] charz
+`a\` , u16 leftPad `tab	here` ,packetx // trailing space 
+asx `say ""hi""` , char[]
+    //x
+    u8x , }
+root packet
+    // packet A { u8 x, }
+    Packet
+    // @lengthOf(
+    { int32 chars,	repeat int8 stringy , string chars
+    ,repeat	chars
+    // `tick` ""quote"" 'q'
+    {  _x  ,repeat repeatCount trueish,
+falsey // @lengthOf(
+@calculatedFrom(
+""it's"" )// " ++ [128512]%N ++ runes_of_ascii " emoji
+, },
 // packet A { u8 x, }
 // trailing space 
-options1
-    { 0123456789
-: zchar , 00  :pack, } ,match
-// c
-// packet A { u8 x, }
-zchar as
-options1 {
-    ""it's""
-:matchKey  , ""1"" :// `tick` ""quote"" 'q'
-u128
-,  ""`tick`""  :
-    trueish
-    // packet A { u8 x, }
-    255 // " ++ [27880; 37322]%N ++ runes_of_ascii "
-:
-crc
-    , }  ,  } packet Z9_
-// `tick` ""quote"" 'q'
-// packet A { u8 x, }
-{ BodyLength@calculatedFrom(
-// " ++ [27880; 37322]%N ++ runes_of_ascii "
-// " ++ [27880; 37322]%N ++ runes_of_ascii "
-""x y"" ) `" ++ [28040; 24687; 31867; 22411]%N ++ runes_of_ascii "`
-, @lengthOf( metadata// packet A { u8 x, }
-) repeat i8i8
-    zchar
-`" ++ [28040; 24687; 31867; 22411]%N ++ runes_of_ascii "` ,zchar[
-255  ] uint8x,
-int8 Z9_@calculatedFrom(
-    """" ) , } // packet A { u8 x, }")).
-Eval vm_compute in ("<<<M4090>>>" ++ check (runes_of_ascii "options {
-    LittleEndian = false;
+char[] i8i8
+    @lengthOf( packetx),}
+")).
+Eval vm_compute in ("<<<M3902>>>" ++ check (runes_of_ascii "options
+
+{StringPrefixLenType 
+=u16
+    ;
+
+    ArrayPrefixLenType
+    =u16
+; }
+
+    packet
+    SampleBinary 
+{
+    uint16
+	MsgType
+`" ++ [28040; 24687; 31867; 22411]%N ++ runes_of_ascii "`  ,	u16 BodyLenght 
+@lengthOf(
+    Body
+
+    )
+
+`" ++ [28040; 24687; 20307; 38271; 24230]%N ++ runes_of_ascii "` , match 
+MsgType as
+Body
+    {
+
+1 :
+
+    Logon  , 2  : Logout ,
+3
+
+    :
+    Heartbeat 
+,
+	4  :
+
+RiskControlRequest
+, 5 :
+    RiskControlResponse
+	,	},
+    @calculatedFrom(  ""CRC32""
+	)
+    u32
+
+    Ckecksum `" ++ [26657; 39564; 21644]%N ++ runes_of_ascii "`,
+} 
+packet
+
+    Logon
+    {
+@leftPad
+	(
+	'0' )char[ 
+10
+]UserName
+
+`" ++ [29992; 25143; 21517]%N ++ runes_of_ascii "`
+
+    ,
+
+    string	Password  `" ++ [23494; 30721]%N ++ runes_of_ascii "`
+,
+uint64 ClientId `" ++ [23458; 25143; 31471]%N ++ runes_of_ascii "ID` 
+, u16
+	HeartbeatInterval
+
+`" ++ [24515; 36339; 38388; 38548]%N ++ runes_of_ascii "`
+
+    , }
+
+    packet	Logout
+
+    { @rightPad ('0')
+	char[
+	10 ]  UserName `" ++ [29992; 25143; 21517]%N ++ runes_of_ascii "` 
+, uint64	ClientId
+
+`" ++ [23458; 25143; 31471]%N ++ runes_of_ascii "ID`	, }
+
+    packet
+
+Heartbeat {
+
+    }
+packet RiskControlRequest{ string 
+UniqueOrderId `" ++ [21807; 19968; 35746; 21333; 21495]%N ++ runes_of_ascii "`
+	,	char[
+16
+
+    ]
+
+    ClOrdID `" ++ [23458; 25143; 35746; 21333; 21495]%N ++ runes_of_ascii "`
+, 
+char[
+3]
+
+    MarketID 
+`" ++ [24066; 22330]%N ++ runes_of_ascii "id`
+
+,
+    char[
+	12
+]  SecurityID`" ++ [35777; 21048; 20195; 30721]%N ++ runes_of_ascii "` ,
+
+    char
+
+    Side 
+`" ++ [20080; 21334; 26041; 21521]%N ++ runes_of_ascii "` 
+, char OrderType`" ++ [35746; 21333; 31867; 22411]%N ++ runes_of_ascii "`
+,u64
+Price
+`" ++ [20215; 26684]%N ++ runes_of_ascii "`,
+
+u32 
+Qty `" ++ [25968; 37327]%N ++ runes_of_ascii "` , repeat string
+
+    ExtraInfo`" ++ [38468; 21152; 20449; 24687]%N ++ runes_of_ascii "`
+
+    ,
+
+    repeat
+SubOrder{
+
+    char[ 16 ] ClOrdID 
+`" ++ [23376; 35746; 21333; 21495]%N ++ runes_of_ascii "` ,u64  Price`" ++ [23376; 35746; 21333; 20215; 26684]%N ++ runes_of_ascii "`,u32  Qty`" ++ [23376; 35746; 21333; 25968; 37327]%N ++ runes_of_ascii "`,
+},
+}
+
+packet
+    RiskControlResponse	{ string
+UniqueOrderId 
+`" ++ [21807; 19968; 35746; 21333; 21495]%N ++ runes_of_ascii "`  ,
+i32 Status
+`" ++ [29366; 24577]%N ++ runes_of_ascii "`  ,
+
+    string
+Msg `" ++ [32467; 26524; 20449; 24687]%N ++ runes_of_ascii "`
+
+, repeat  Detail
+, } 
+packet	Detail
+    {string
+RuleName
+    `" ++ [35268; 21017; 21517; 31216]%N ++ runes_of_ascii "`
+	,
+	u16 Code`" ++ [21407; 22240; 20195; 30721]%N ++ runes_of_ascii "`,
+    }
+
+")).
+Eval vm_compute in ("<<<M3577>>>" ++ check (runes_of_ascii "// top
+options {
+    LittleEndian = false;// c5
     StringPrefixLenType = u16;
-    ArrayPrefixLenType = u64;
-    FixedStringPadFromLeft = true;
-    FixedStringPadChar = ' ';
+    // c9
+    ArrayPrefixLenType = u32;// c13
 }
 
-packet Logon {
-    u16 Tail,
-    repeat string x,
-    i16 count,
-    @leftPad('0')
-    char[3] Note,
+packet Order {
+    uint8 x,
+    repeat string venue,
+    // c24
 }
 
-packet Fill {
-}
-
+// c25
 packet Heartbeat {
+    // c28
+    i64 count,
+    // c31
+    zchar[1] Qty,
+    // c36
+    repeat InX29 {
+        // c39a
+        // c39b
+        InSeqno26 {
+            // c41a
+            // c41b
+            int64 f1,
+            char[5] Acct,// c49a
+            // c49b
+            Order,
+            // c51
+        },// c53a
+        // c53b
+        repeat InSide285 {
+            // c56a
+            // c56b
+            repeat Order,
+            char[10] Px,// c64a
+            // c64b
+            zchar[9] OrderId,// c69a
+            // c69b
+        },// c71a
+        // c71b
+        char[] venue,
+        // c74
+        Order,
+        // c76
+    },// c78
+    @rightPad('\x00')
+    // c82
+    char[4] clOrdID,// c87
+}
+
+// c88
+root packet Party {
+    zchar[3] f1,
+    u32 clOrdID,// c100a
+    // c100b
+    u32 Px @lengthOf(Body),
+    // c106
+    match clOrdID as Body {
+        [180, 64] : Heartbeat,
+        // c119
+        11 : Order,
+        // c123a
+        // c123b
+    },
+    // c125
+    u32 Side2 @calculatedFrom(""CRC32""),// c131a
+    // c131b
+}
+// c132")).
+Eval vm_compute in ("<<<M4362>>>" ++ check (runes_of_ascii "packet Packet {
+}
+
+packet repeatCount {
+    @tag(4294967296)
+    @lengthOf(A)
+    @lengthOf(float)
+    rootA,
+    @tag(0123456789)
+    Header `// not a comment`,
+    matchKey f32a,
+    Pad,
+    repeat float32 uint8x `" ++ [233]%N ++ runes_of_ascii "`,
+    @leftPad('\x00')
+    repeat char[3] tag `
+    `,
+    repeat pack {
+        repeat x {
+            repeat f64 len,
+            i64_ len,
+        },
+        repeatCount @lengthOf(uint8x),
+        match zchar as a1 {
+            // a // b
+            // packet A { u8 x, }
+            3 : u,
+        },// packet A { u8 x, }
+        repeat rootA {
+            options1 {
+                repeat body u8x `crlf
+                line`,
+                match Z9_ as f32a {
+                    007 : repeatCount,
+                    ""packet"" : calculatedFrom,
+                    // " ++ [128512]%N ++ runes_of_ascii " emoji
+                    10 : calculatedFrom,
+                    ""CRC32"" : _x,
+                    [""x y""] : i64_,
+                    ""packet"" : MetaDataX,
+                },
+            },
+            //x
+        },
+    },
+}
+
+MetaData asx {
+    u trueish,
+    chars f32a `// not a comment`,
+    float64 u128,
+    string_ string_ `
+    `,
+}
+
+packet crc {
+}")).
+Eval vm_compute in ("<<<M4520>>>" ++ check (runes_of_ascii "MetaData body {
+    asx stringy,
+    f64 As ``,
+    Foo Logon `a\`,
+    packetx asx `" ++ [28040; 24687; 31867; 22411]%N ++ runes_of_ascii "`,
+    u32 matchKey `line1
+    line2`,
+    u16 chars,
+}
+
+root packet _x {
+    match rootA as repeatCount {
+        /// triple
+        //x
+        007 : msg_type,
+        /// triple
+        [4294967296, ""// no comment""] : leftPad,
+        """" : packetx,
+        0123456789 : Logon,
+        10 : a1,
+        [
+            ""abc"", 7, ""CRC32"", 0123456789, 255,
+            ""a\""b"", """ ++ [128512]%N ++ runes_of_ascii """
+        ] : len,
+    },
+    repeat string trueish,
+    @rightPad()
+    int64 f32a @lengthOf(tag),
+    // a // b
+    // @lengthOf(
+    zchar[42] lengthOf @lengthOf(tag) `{ , }`,
+    @tag(10)
+    int32 leftPad `doc`,
+    x_y_z chars,
+    @calculatedFrom(""// no comment"")
+    @lengthOf(_x)
+    @lengthOf(matchKey)
+    repeat zchar zchar,
+    @calculatedFrom(""a	b"")
+    repeat Pad i8i8,
+    @tag(1)
+    repeat int16 metadata,
+}
+
+options {
+    T = ""`tick`"";
+    crc = '\x00';// packet A { u8 x, }
+    o = ' ';
+}
+
+packet matchKey {
+    zchar[0123456789] crc,
+    @lengthOf(packetx)
+    char[] uint8x `say ""hi""`,
+    repeat As A,
+}
+// c")).
+Eval vm_compute in ("<<<M4509>>>" ++ check (runes_of_ascii "packet charz {
+    zchar @lengthOf(body),
+    string BodyLength ``,
+    float `" ++ [233]%N ++ runes_of_ascii "`,
+    @lengthOf(len)
+    @tag(255)
+    @calculatedFrom(""{,}"")
+    a1 int `two words`,
+    char[3] float @calculatedFrom(""CRC32""),
+    repeat int32 stringy,//
+    @tag(3)
+    @tag(3)
+    a1 {
+        match chars as roots {
+            ""it's"" : o,
+            ""CRC32"" : stringy,
+            0123456789 : Pad,
+            [""a	b"", """ ++ [128512]%N ++ runes_of_ascii """] : body,
+        },
+        char[42] u8x,
+        char[255] x_y_z @calculatedFrom(""packet""),
+        match body as BodyLength {
+            10 : zchar,
+            007 : uint8x,
+            ""a\""b"" : Header,
+            ""x y"" : chars,
+            007 : f32a,
+        },
+    },
+    match T as stringy {
+        10 : float,
+        // trailing space 
+        0 : string_,
+        10 : crc,
+        7 : chars,
+        7 : body,
+    },
+    repeat crc `
+        `,
+}
+
+MetaData roots {
+    char[] string_ `{ , }`,
+}
+
+root packet As {
+    @rightPad(' ')
+    i64 leftPad @calculatedFrom(""abc"") `doc`,
+    char[] options1,
+}")).
+Eval vm_compute in ("<<<M641>>>" ++ check (runes_of_ascii "root
+    packet pack {
+@lengthOf(
+leftPad) match msg_type
+    as// a // b
+lengthOf
+    {
+""\n"" : a1,3
+:tag 0 : metadata
+,
+    } ,
+    tag @calculatedFrom( ""CRC32"" )
+    `doc`/// triple
+,
+    @rightPad // `tick` ""quote"" 'q'
+('\x00'
+//x
+// " ++ [27880; 37322]%N ++ runes_of_ascii "
+)zchar[ 255 ]asx// @lengthOf(
+`say ""hi""` ,@calculatedFrom( ""a	b"")
+    @calculatedFrom(""" ++ [233]%N ++ runes_of_ascii "t" ++ [233]%N ++ runes_of_ascii """)@calculatedFrom(""packet"" ) Pad { match
+    rootA  as float {
+    [00 , 007 , ""a\""b"" ,"""",	""a	b"" , ""packet""	]: stringy 0 // trailing space 
+: float  ""\" ++ [233]%N ++ runes_of_ascii """ : int	,} , i8i8 { Foo @calculatedFrom( """ ++ [128512]%N ++ runes_of_ascii """
+),
+string zchar `" ++ [28040; 24687; 31867; 22411]%N ++ runes_of_ascii "` , zchar[ 3
+    // " ++ [27880; 37322]%N ++ runes_of_ascii "
+    ] metadata `crlf
+line` ,
+match leftPad as // c
+f32a //	t
+{ 0
+: // " ++ [27880; 37322]%N ++ runes_of_ascii "
+pack, [ """",  ""packet""
+, 0	,42,""abc""
+,
+// c
+// trailing space 
+1 ,
+    ""{,}"" ]
+: uint8x
+} ,
+} ,char[ 00
+// c
+// trailing space 
+] trueish @calculatedFrom( """ ++ [128512]%N ++ runes_of_ascii """) // `tick` ""quote"" 'q'
+,// c
+} , }packet repeatCount{@tag( 4294967296
+    )  i8i8
+// " ++ [27880; 37322]%N ++ runes_of_ascii "
+//x
+f32a,@lengthOf(  len )
+i8i8 {As`
+` // " ++ [128512]%N ++ runes_of_ascii " emoji
+, },repeat
+f64 asx , }
+")).
+Eval vm_compute in ("<<<M1106>>>" ++ check (runes_of_ascii "options
+    {Pad //x
+= """" ;// trailing space 
+zchar =char[ 65535 ] Foo // c
+= 1; } packet asx {
+repeat char u128
+// " ++ [27880; 37322]%N ++ runes_of_ascii "
+//x
+, i16 Pad ,x @lengthOf( Packet )`
+`, @tag( 10 ) repeat float32	i64_
+`// not a comment`,
+@calculatedFrom("""") @calculatedFrom( """")
+@calculatedFrom(
+    ""it's"") repeat  BodyLength Foo ``, /// triple
+matchKey
+    As `say ""hi""` ,
+@rightPad
+( ' ' ) i8i8 BodyLength `" ++ [233]%N ++ runes_of_ascii "`, } packet Pad
+{@tag( 10 ) match
+o // a // b
+as zchar {[  ""abc""
+    ] : i8i8
+,
+""// no comment"" : T ,
+} ,
+u128  f32a`{ , }`,  @rightPad	( ) float64 Packet @lengthOf(	chars )  `it's`, @rightPad (
+'0' /// triple
+) repeat
+    zchar
+Packet `" ++ [28040; 24687; 31867; 22411]%N ++ runes_of_ascii "`
+, @tag( 00
+// a // b
+/// triple
+)@rightPad( '0' ) match u as	pack {""" ++ [28040; 24687]%N ++ runes_of_ascii """ : repeatCount ""abc"" : Foo  7:A ,
+""\" ++ [233]%N ++ runes_of_ascii """// packet A { u8 x, }
+:_x , } ,	As @lengthOf( int
+    )
+//
+// " ++ [128512]%N ++ runes_of_ascii " emoji
+, char[ 7 ] rootA
+    @lengthOf( leftPad)
+    `{ , }` , repeat f64 x , @calculatedFrom( """ ++ [128512]%N ++ runes_of_ascii """ )
+char[] u128
+,  }")).
+Eval vm_compute in ("<<<M1042>>>" ++ check (runes_of_ascii "  MetaData
+//
+// a // b
+float {stringy // packet A { u8 x, }
+leftPad //
+, }
+root packet a1 /// triple
+{ @lengthOf(	matchKey ) char[] int `
+`
+    ,char[
+42] body `a\` , @leftPad ('0'
+    ) T { zchar[
+1 ] /// triple
+u128
+@lengthOf( repeatCount
+) `
+` , // trailing space 
+} , @lengthOf(
+msg_type
+// `tick` ""quote"" 'q'
+// @lengthOf(
+)
+    repeat uint16 rootA , @rightPad( ) repeat metadata i64_ `two words` , match leftPad as _x
+{
+// @lengthOf(
+/// triple
+00
+    :charz
+    , 7	:  float,// @lengthOf(
+""CRC32"" :	float 0123456789  :	rootA } ,  rootA , zchar[	42
+// " ++ [128512]%N ++ runes_of_ascii " emoji
+// packet A { u8 x, }
+]
+    pack , @lengthOf( trueish)
+    i64 Foo , //x
+body
+    `" ++ [28040; 24687; 31867; 22411]%N ++ runes_of_ascii "` , }packet T //
+{repeat Packet ,
+// trailing space 
+// `tick` ""quote"" 'q'
+char[]// @lengthOf(
+x
+`crlf
+line`
+, charz @lengthOf(
+    pack //
+) ,
+char[
+    // c
+    0 ] As,
+    @calculatedFrom( """ ++ [28040; 24687]%N ++ runes_of_ascii """
+    )MetaDataX ,}")).
+Eval vm_compute in ("<<<M1103>>>" ++ check (runes_of_ascii "/// triple
+packet // packet A { u8 x, }
+asx{stringy BodyLength `doc`,
+    @tag( 00 ) A
+    {  f32a  , i32 // @lengthOf(
+x_y_z @calculatedFrom( //
+""1"" ) `doc`, u32 // packet A { u8 x, }
+x_y_z
+    `" ++ [28040; 24687; 31867; 22411]%N ++ runes_of_ascii "` , uint16
+o `a\`
+, // a // b
+} ,
+//x
+// trailing space 
+@leftPad ( ' ' )
+x_y_z @calculatedFrom( ""x y"" ) `{ , }` ,
+@calculatedFrom(
+""{,}""
+    // " ++ [27880; 37322]%N ++ runes_of_ascii "
+    )	MetaDataX ,
+    }packet x_y_z {
+    @calculatedFrom(
+""a\\"" )
+repeat char[
+    4294967296 ]	zchar
+    // `tick` ""quote"" 'q'
+    `it's` , @tag( 10
+)
+matchKey
+    @calculatedFrom( ""CRC32"")  , @calculatedFrom( ""it's"") repeat uint8x
+, zchar[ 7 ]  msg_type @lengthOf( crc )
+    `line1
+line2` ,falsey { x_y_z MetaDataX, int32 chars `" ++ [233]%N ++ runes_of_ascii "`
+// " ++ [128512]%N ++ runes_of_ascii " emoji
+// " ++ [128512]%N ++ runes_of_ascii " emoji
+, char[]
+stringy @calculatedFrom( """ ++ [128512]%N ++ runes_of_ascii """
+    )`" ++ [233]%N ++ runes_of_ascii "`,} ,@calculatedFrom(  ""abc""
+// a // b
+// a // b
+) repeat char Z9_ , }
+")).
+Eval vm_compute in ("<<<M3781>>>" ++ check (runes_of_ascii "
+options
+
+{	len=	int8  /// triple
+    Header
+    =
+	'0'
+;
+
+} packet
+options1
+	{  @calculatedFrom(
+
+""{,}"" )
+	repeat//
+    body
+    ,
+
+    }
+
+    packet  uint8x	{	repeat
+int8  f32a
+    , }
+
+    packet	As{ match u128
+as o {0
+
+    : len 
+,
+	    // c
+
+	}
+, @calculatedFrom(""""	)
+
+zchar// @lengthOf(
+	As,  zchar[
+	00]u8x
+, @lengthOf(	u8x )match
+stringy
+
+    as
+o
+
+{[ ""1""
+,
+""\" ++ [233]%N ++ runes_of_ascii """
+]// " ++ [128512]%N ++ runes_of_ascii " emoji
+  :
+repeatCount
+
+,  [
+	7
+, 
+	// " ++ [27880; 37322]%N ++ runes_of_ascii "
+	3
+	,
+""1""
+,  007 ,
+""\n""
+    , 0 
+]:	metadata
+,	//	t
+    ""it's"":o
+	,
+	00:
+roots ,4294967296 :uint8x
+,}  , @calculatedFrom(
+	""it's""
+    )
+@tag(
+3)	int
+    @lengthOf( int 
+)
+    ,
+    char[]
+
+asx
+@calculatedFrom( 
+""a\""b"" )
+`a\` ,int16
+    charz
+
+    , 
+  //	t
+	string x_y_z
+@lengthOf( int
+    )`a\`
+
+    ,	i64 o
+
+    ,}
+root packet  zchar	{  }
+
+")).
+Eval vm_compute in ("<<<M3670>>>" ++ check (runes_of_ascii "
+//x
+  root
+	packet 
+Z9_
+{@calculatedFrom(
+""a\\"" )	zchar[ 1 ] 	 // @lengthOf(
+  a1 @lengthOf(Z9_ 
+)
+
+    ,
+
+@tag(0123456789) @lengthOf(
+Header )@tag( 4294967296)
+    uint8 u128
+	,
+i16  msg_type	// trailing space 
+,
+
+tag
+
+matchKey  ,repeat	i8
+options1`tab	here`	,
+
+repeat /// triple
+  f32a
+Z9_
+,  
+      /// triple
+//	t
+
+match  tag
+	as
+
+    Foo {	42
+    : 
+Logon ,
+	[ 4294967296
+	]
+
+:Pad
+
+,
+3 :
+a1
+
+,
+
+[
+
+    007	,
+
+1
+	] 
+:a1
+    , } , // packet A { u8 x, }
+	repeat zchar{
+
+repeat //
+
+u8 options1 // c
+  , 
+leftPad{ msg_type 
+, } ,
+	leftPad
+@lengthOf(string_
+
+)
+	`a\`
+	,} , zchar charz ,	string tag
+
+    @calculatedFrom( ""{,}""	)	,	// " ++ [27880; 37322]%N ++ runes_of_ascii "
+  	}  packet  // @lengthOf(
+
+u128 {
+@tag(	// " ++ [27880; 37322]%N ++ runes_of_ascii "
+	4294967296 ) @tag( 42 )
+	f32a 
+@lengthOf(float )	`" ++ [233]%N ++ runes_of_ascii "`
+, 
+}")).
+Eval vm_compute in ("<<<M3918>>>" ++ check (runes_of_ascii "options {
+    StringPrefixLenType = u16;
+    ArrayPrefixLenType = u32;
+    FixedStringPadFromLeft = false;
+    FixedStringPadChar = '0';
+}
+
+packet Logout {
+    f64 f1,
+    i16 Note,
+    @rightPad('\x00')
+    char[11] Flags,
+}
+
+packet Cancel {
+    float64 msgKind,
 }
 
 packet Reject {
-    string msgKind,
-    repeat Logon,
-    InFlags25 {
-        repeat InPrice29 {
-            u8 price,
-            Logon,
-            repeat char[1] Note,
-        },
-        char[] x,
-        Fill,
+    InQty43 {
+        float32 sym,
+        char[10] Tail,
+        uint8 venue,
+        uint16 f1,
+        char[9] Acct,
     },
-    repeat Heartbeat,
+}
+
+packet Trade {
+    char[] x,
+    zchar[6] Note,
+    repeat Reject,
 }
 
 root packet Order {
-    InNote88 {
-        repeat i32 Acct,
-        repeat i16 clOrdID,
-        repeat Logon,
+    Cancel,
+    Logout,
+    u64 Acct,
+    u32 OrderId,
+    match OrderId as Body {
+        [127, 70] : Reject,
+        177 : Trade,
+        58 : Logout,
+        75 : Cancel,
     },
-    u16 tag7,
-    match tag7 as Body {
-        [14, 22] : Logon,
-        55 : Heartbeat,
-        93 : Reject,
-        13 : Fill,
-    },
+    u32 Tail @calculatedFrom(""CRC32""),
 }")).
-Eval vm_compute in ("<<<M708>>>" ++ check (runes_of_ascii "  packet roots {
-    @calculatedFrom(
-    ""CRC32"" // " ++ [128512]%N ++ runes_of_ascii " emoji
-) @tag(
-    42
-    )  Z9_ leftPad `line1
-line2`
-, @lengthOf( string_) @lengthOf(
-Packet )	@calculatedFrom(  ""// no comment""
-    )
-repeat
-chars len , @tag( //x
-42 )
-@tag( 3 )u8 u128 @lengthOf(	A
-) , char T ,@lengthOf(
-    charz )// `tick` ""quote"" 'q'
-zchar lengthOf, repeat zchar[ 00 ] A
-    ,char[ 4294967296 ] leftPad
-`u8 x,` , @tag( 4294967296
-    ) @tag(
-    //	t
-    007)
-    repeat char[
-    65535 ]
-float
-// packet A { u8 x, }
-//
-`two words`
-    , } packet crc {msg_type @lengthOf(chars	) , string//	t
-chars
-@lengthOf(
-u128 ) ,int64 Header ,match lengthOf//	t
-as pack { [ 255
-,
-""packet"" ]
-// c
-// " ++ [27880; 37322]%N ++ runes_of_ascii "
-:i64_// packet A { u8 x, }
-,//x
-1: u }
-, trueish @lengthOf( packetx
-) , charz @lengthOf( packetx), }
-")).
-Eval vm_compute in ("<<<M4350>>>" ++ check (runes_of_ascii "  options
-    { LittleEndian
-=false
-
-; 
-StringPrefixLenType
-
-=
-    u16; ArrayPrefixLenType
-
-= u32
-    ; }
-
-    packet
-Order
-
-{  uint8
-
-x,
-repeat  string
-	venue
-    ,
-}
-    packet
-
-Heartbeat
-
-    {
-    i64
-    count,zchar[
-1 ]
-Qty  ,repeat
-
-InX29 {
-InSeqno26 
-{ int64 f1,	char[
-
-5
-
-    ]Acct
-
-,Order , }
-    ,  repeat
-
-InSide285
-    {
-	repeat	Order	,
-	char[
-	10  ] Px
-
-, zchar[
-
-9	]
-    OrderId,
-}	,	char[] venue ,	Order 
-, 
-} ,
-    @rightPad
-    (
-'\x00'
-    ) 
-char[
-	4
-    ]	clOrdID
-,}root packet	Party 
-{
-
-    zchar[  3
-]
-f1 ,
-
-u32 clOrdID
-,u32
-
-    Px @lengthOf(	Body
-	)
-, match 
-clOrdID
-
-as
-
-    Body {
-[
-	180
-
-    ,
-
-    64
-]  :
-Heartbeat
-,
-	11
-	:	Order,
-}
-	,  u32  Side2
-@calculatedFrom( 
-""CRC32"")
-,} ")).
-Eval vm_compute in ("<<<M696>>>" ++ check (runes_of_ascii "
-MetaData
-packetx { }
-    MetaData _x { char[ 255] string_
-, int32	trueish  `u8 x,` ,}
-packet
-    //	t
-    asx{x_y_z, @calculatedFrom( ""it's"" )
-match // a // b
-Pad
-as falsey {
-[ ""`tick`"" ,	7 , """ ++ [28040; 24687]%N ++ runes_of_ascii """
-,
-    """ ++ [233]%N ++ runes_of_ascii "t" ++ [233]%N ++ runes_of_ascii """ , ""a\\""
-,
-// " ++ [27880; 37322]%N ++ runes_of_ascii "
+Eval vm_compute in ("<<<M1353>>>" ++ check (runes_of_ascii "root  packet uint8x
+    { }options {
+    o	=
 //x
-3
-,
-    // " ++ [27880; 37322]%N ++ runes_of_ascii "
-    65535 ]:// " ++ [128512]%N ++ runes_of_ascii " emoji
-packetx,
-    // @lengthOf(
-    1
-    :	zchar
-// " ++ [128512]%N ++ runes_of_ascii " emoji
-// " ++ [27880; 37322]%N ++ runes_of_ascii "
-,
-[ ""a\""b"" , 42 ] // a // b
-:f32a , } , @tag(	007 //
-)
-    repeat string
-    len
-`doc`	,@calculatedFrom(
-    ""a\\"" )// `tick` ""quote"" 'q'
-matchKey
-//	t
-// `tick` ""quote"" 'q'
-calculatedFrom `{ , }`, u8x@lengthOf( T )
-`it's`,
-}MetaData packetx { metadata  o`" ++ [233]%N ++ runes_of_ascii "`
-    , i32 u128
-`a\` , char[]msg_type , uint32 u, u32
-Packet`" ++ [28040; 24687; 31867; 22411]%N ++ runes_of_ascii "`
-    ,
-    int16
-    len`" ++ [28040; 24687; 31867; 22411]%N ++ runes_of_ascii "` ,	}
-")).
-Eval vm_compute in ("<<<M4396>>>" ++ check (runes_of_ascii "packet Logon {
-    repeat char MetaDataX `say ""hi""`,
-    @lengthOf(packetx)
-    char[] repeatCount `doc`,
-    @leftPad('0')
-    @tag(7)
-    Header @calculatedFrom(""""),
-    @lengthOf(MetaDataX)
-    match x as Header {
-        ""x y"" : u8x,
-        """ ++ [128512]%N ++ runes_of_ascii """ : charz,
-        """ ++ [233]%N ++ runes_of_ascii "t" ++ [233]%N ++ runes_of_ascii """ : _x,
-        [3, 00] : uint8x,
-        ""it's"" : rootA,
-        [00, 65535] : zchar,
-    },
-    @calculatedFrom(""// no comment"")
-    int32 i64_,
-    repeat body {
-        zchar[10] BodyLength `line1
-                line2`,
-        lengthOf Logon,// @lengthOf(
-        repeat float64 i8i8,
-        char[0123456789] leftPad `
-                `,
-    },
-    repeat char[255] a1 `" ++ [28040; 24687; 31867; 22411]%N ++ runes_of_ascii "`,
-}")).
-Eval vm_compute in ("<<<M4343>>>" ++ check (runes_of_ascii "packet Header {
-    @rightPad('0')
-    uint8x @calculatedFrom(""a	b""),
-    char[] u128 @calculatedFrom(""// no comment""),
-    @tag(0123456789)
-    char[255] lengthOf @calculatedFrom("""") `" ++ [28040; 24687; 31867; 22411]%N ++ runes_of_ascii "`,
-    x_y_z,
-    i32 x_y_z ``,
-    repeat char[007] rootA,
-    float32 msg_type @calculatedFrom(""a	b"") `{ , }`,// " ++ [27880; 37322]%N ++ runes_of_ascii "
-    @calculatedFrom(""x y"")
-    @tag(255)
-    match i8i8 as A {
-        """" : f32a,
-    },
-    matchKey {
-        MetaDataX Header,
-        repeatCount `say ""hi""`,
-        char[0] MetaDataX @lengthOf(len) `" ++ [233]%N ++ runes_of_ascii "`,
-    },
-    zchar[7] pack @calculatedFrom(""\n""),
-}
-
-packet uint8x {
-    uint64 uint8x @calculatedFrom(""abc""),
-}")).
-Eval vm_compute in ("<<<M730>>>" ++ check (runes_of_ascii "//x
-packet Packet
-{ } // " ++ [128512]%N ++ runes_of_ascii " emoji
-packet A { @calculatedFrom(
-    ""a	b""
-    ) @tag(
-    // `tick` ""quote"" 'q'
-    00 ) char[4294967296]u128 `` , } options {  lengthOf = """ ++ [233]%N ++ runes_of_ascii "t" ++ [233]%N ++ runes_of_ascii """
-    ; crc= ""CRC32"" ; }
-packet crc {
-    @tag(255 ) @rightPad ( ) repeat
-    //
-    Pad, zchar[ 3 ] charz @lengthOf( zchar
-)
-`say ""hi""` ,repeat Header string_ `` // @lengthOf(
-,
-len@calculatedFrom(
-    ""`tick`"") ,
-@tag( 65535 )
-    match chars
-as	msg_type {4294967296 : roots
-, """ ++ [233]%N ++ runes_of_ascii "t" ++ [233]%N ++ runes_of_ascii """ :_x ,
-""CRC32"" : leftPad	, // packet A { u8 x, }
-42: MetaDataX,
-// a // b
-// c
-[ ""a	b""]
-: i64_/// triple
-""`tick`"" :
-MetaDataX ,}
-,
-    }
-")).
-Eval vm_compute in ("<<<M3713>>>" ++ check (runes_of_ascii "
-// top
-packet // c0
-
-trueish 
-  // c1
-  { repeat	// c3
-    u32 
-        // c4
-  MetaDataX // c5a
-    // c5b
-	`doc`  // c6a
-	// c6b
-	,
-	Header
-
-    // c8
-
-{
-	    // c9
-
-	packetx  // c10a
-  // c10b
-  o
-    `u8 x,`// c12a
-      // c12b
-		,  // c13a
-	// c13b
-
-} 
-      // c14
-  ,  
-      // c15
-@leftPad 	 // c16
-( // c17a
-// c17b
-	'\x00' 	 // c18a
-  // c18b
-
-)
-repeat 
-char[ 
-	// c21
-  0123456789 
-	    // c22
-    ]  // c23
-
-	repeatCount// c24
-  , 
-	    // c25
-
-	} // c26a
-  // c26b
-
-packet 	 // c27
-Packet 	 // c28
-	{ // c29a
-
-	// c29b
-}
-")).
-Eval vm_compute in ("<<<M3725>>>" ++ check (runes_of_ascii "
-root
-packet chars {  falsey
-
-    ,  uint64
-f32a @lengthOf(
-	lengthOf 
-) 
-,  // c
-  }	MetaData
-
-    T 
-{
-
-char[]  As ,}	// trailing space 
+//
+' '
+; x_y_z= 0123456789 stringy= ""packet"" }
 packet
-    tag
-    {
-
-    i64 Foo
-    @lengthOf( 
-a1
-) , 
-@calculatedFrom(	""" ++ [128512]%N ++ runes_of_ascii """ 
-)
-@leftPad
-    ( 
-'\x00' // " ++ [128512]%N ++ runes_of_ascii " emoji
-
-	) 
-// a // b
-
-@leftPad 
-( 
-'\x00'	)
-	repeat
-
-    Foo
-
-MetaDataX
-    ,
-    }
-
-    root	packet	body
-    {
-    repeat
-u64	MetaDataX 
-`u8 x,`
-, @rightPad 
-(
-
-    ' '
-	)
-	charz @lengthOf(
-matchKey
-    ) 
+    A
+    { match falsey as string_ {
+""" ++ [28040; 24687]%N ++ runes_of_ascii """	: packetx , 0 :BodyLength , } // @lengthOf(
 ,
-	@calculatedFrom( 
-""""
-    )  len@lengthOf(
+float32// " ++ [27880; 37322]%N ++ runes_of_ascii "
+string_ @lengthOf(
+    a1) ,
+trueish @calculatedFrom( ""abc"" ),
+@leftPad //	t
+(  '0' )string matchKey
+    @lengthOf( x_y_z )  ``
+,
+leftPad {trueish @calculatedFrom(""a\""b"" ) // c
+,}, // `tick` ""quote"" 'q'
+@tag( 1
+    // trailing space 
+    )repeat float64 calculatedFrom`{ , }` , @leftPad
+    // @lengthOf(
+    (
+'\x00' )match Z9_ //	t
+as
+crc
+    { [0]  : a1 , //
+} , _x @lengthOf( T )// trailing space 
+, x_y_z `" ++ [28040; 24687; 31867; 22411]%N ++ runes_of_ascii "`
+// c
+// `tick` ""quote"" 'q'
+,
+repeat char[] Z9_  , }
+// " ++ [27880; 37322]%N ++ runes_of_ascii "
+")).
+Eval vm_compute in ("<<<M1306>>>" ++ check (runes_of_ascii "root packet a1
+{@leftPad ()repeat
+pack {repeat
+Header`doc`
+, } , } packet u {//x
+@tag( 65535) @tag( 007	)
+    repeat	uint8x {
+    match Packet as trueish {
+    [ ""1""
+    , 255 , //	t
+65535
+]: trueish ,// @lengthOf(
+""" ++ [233]%N ++ runes_of_ascii "t" ++ [233]%N ++ runes_of_ascii """ :
+    chars
+, """ ++ [233]%N ++ runes_of_ascii "t" ++ [233]%N ++ runes_of_ascii """:
+stringy	""// no comment"" : body
+,""\" ++ [233]%N ++ runes_of_ascii """ : body , } , repeat a1 options1 //	t
+, match	uint8x as Header  { [
+    ""packet""
+    ]
+    : uint8x
+, 10 :
+BodyLength
+,[	007
+]: Foo ,	007 :	T , ""\n"" :
+asx }, char[
+42
+]
+As
+, } , @calculatedFrom(
+""abc"" ) @rightPad // " ++ [128512]%N ++ runes_of_ascii " emoji
+( ) matchKey ``
+    , Logon
+o ,
+    @calculatedFrom(  ""`tick`""
+) repeat a1{ // c
+int8
+    len
+,	}
+// " ++ [27880; 37322]%N ++ runes_of_ascii "
+// `tick` ""quote"" 'q'
+, }
+// trailing space 
+")).
+Eval vm_compute in ("<<<M4186>>>" ++ check (runes_of_ascii "//x
+packet Packet {
+}// " ++ [128512]%N ++ runes_of_ascii " emoji
 
-tag ) , } ")).
+packet A {
+    @calculatedFrom(""a	b"")
+    @tag(00)
+    char[4294967296] u128 ``,
+}
+
+options {
+    lengthOf = """ ++ [233]%N ++ runes_of_ascii "t" ++ [233]%N ++ runes_of_ascii """;
+    crc = ""CRC32"";
+}
+
+packet crc {
+    @tag(255)
+    @rightPad()
+    repeat Pad,
+    zchar[3] charz @lengthOf(zchar) `say ""hi""`,
+    repeat Header string_ ``,
+    len @calculatedFrom(""`tick`""),
+    @tag(65535)
+    match chars as msg_type {
+        4294967296 : roots,
+        """ ++ [233]%N ++ runes_of_ascii "t" ++ [233]%N ++ runes_of_ascii """ : _x,
+        ""CRC32"" : leftPad,
+        // packet A { u8 x, }
+        42 : MetaDataX,
+        // a // b
+        // c
+        [""a	b""] : i64_,
+        /// triple
+        ""`tick`"" : MetaDataX,
+    },
+}")).
+Eval vm_compute in ("<<<M834>>>" ++ check (runes_of_ascii "  packet Pad
+{ @tag(	0123456789)	float64 metadata `a\`
+, @calculatedFrom( ""a\""b""
+)	@lengthOf( //	t
+matchKey )uint8
+leftPad `it's`, i32 chars `two words` , @leftPad ( ' ')@calculatedFrom(
+""{,}"" ) leftPad	`" ++ [233]%N ++ runes_of_ascii "` , char[
+00 ] options1 `" ++ [233]%N ++ runes_of_ascii "` ,
+    repeat repeatCount
+    { repeat zchar
+{ char[ 65535 ]
+    // a // b
+    lengthOf@lengthOf( As ) `{ , }`
+    ,}
+,
+As _x , a1 //
+``	,
+calculatedFrom `{ , }` ,
+    } ,@lengthOf(  calculatedFrom )match
+    o as  x_y_z{  00: A ,
+    42: lengthOf , [""packet"" ,
+    10 ] :charz , [""{,}""
+//
+// `tick` ""quote"" 'q'
+, 1
+]  : tag // trailing space 
+[""{,}""] :int
+, }  ,	}
+")).
+Eval vm_compute in ("<<<M4012>>>" ++ check (runes_of_ascii "/// triple
+root packet x {
+    @rightPad()
+    // trailing space 
+    string f32a `two words`,
+    match MetaDataX as packetx {
+        ""CRC32"" : metadata,
+        ""\" ++ [233]%N ++ runes_of_ascii """ : leftPad,
+        // packet A { u8 x, }
+        // trailing space 
+        [
+            ""// no comment"", 00, 4294967296, 10, 65535,
+            ""`tick`"", ""a\""b""
+        ] : chars,
+        """ ++ [28040; 24687]%N ++ runes_of_ascii """ : Foo,
+        ""a\\"" : calculatedFrom,
+    },
+    @calculatedFrom(""a\\"")
+    @lengthOf(A)
+    @calculatedFrom(""" ++ [128512]%N ++ runes_of_ascii """)
+    x_y_z,
+    repeat crc {
+        string repeatCount,
+    },
+}
+
+options {
+}")).
+Eval vm_compute in ("<<<M1040>>>" ++ check (runes_of_ascii "
+options	{ zchar =	false ; Packet = ""`tick`"" ;	a1 =
+    // c
+    char[]
+    ; Packet =0123456789 ; }	packet msg_type  { /// triple
+@lengthOf( u128
+) body	@lengthOf( len ) ,@calculatedFrom( ""CRC32""
+)
+zchar[
+    /// triple
+    007 ]// packet A { u8 x, }
+repeatCount@lengthOf(
+Foo)  `it's` , i16 leftPad @calculatedFrom(""a\\"")
+`u8 x,` ,
+    /// triple
+    float ,
+@lengthOf(a1 )As @lengthOf( rootA ) `doc` // @lengthOf(
+, // " ++ [128512]%N ++ runes_of_ascii " emoji
+f32 o
+@calculatedFrom(""a	b"" )  `tab	here` ,
+    } options
+// @lengthOf(
+// " ++ [27880; 37322]%N ++ runes_of_ascii "
+{ } options { }
+
+")).
 Eval vm_compute in ("<<<M565>>>" ++ check (runes_of_ascii "
 MetaData float { u32 metadata
 , } root
@@ -1458,747 +1239,319 @@ body
 )	match
     BodyLength as A{ 10 : crc , }
     , } // @lengthOf(")).
-Eval vm_compute in ("<<<M1291>>>" ++ check (runes_of_ascii "/// triple
-root packet x{
-@rightPad () // trailing space 
-string f32a `two words` ,  match MetaDataX as packetx { ""CRC32""
-: metadata, ""\" ++ [233]%N ++ runes_of_ascii """
-    // @lengthOf(
-    :
-leftPad ,
-// packet A { u8 x, }
-// trailing space 
-[ ""// no comment"" , 00
-    , 4294967296  ,  10	,65535
-    , ""`tick`"", ""a\""b"" ] : chars , """ ++ [28040; 24687]%N ++ runes_of_ascii """:Foo , ""a\\"" :
-    calculatedFrom , }
-,@calculatedFrom( ""a\\""
-) @lengthOf(A
-) @calculatedFrom( """ ++ [128512]%N ++ runes_of_ascii """) x_y_z ,
-repeat crc {
-    string repeatCount , } , } options {
-}
-")).
-Eval vm_compute in ("<<<M4105>>>" ++ check (runes_of_ascii "  packet
-
-T
-{ 
-
-/// triple
-  // @lengthOf(
-  @tag(
-007  ) T@calculatedFrom(
-	""CRC32"" 
-)  
-  //	t
-//
-
-,
-	@tag(  // " ++ [27880; 37322]%N ++ runes_of_ascii "
-  65535
-)
-
-repeat 
-tag
-{ a1  @calculatedFrom( ""a\""b"" )	, }
-    ,
-	As{  char[ 	 //	t
-  007]
-lengthOf
-
-    ,
-
-char[] x 
-@lengthOf(
-
-crc ) ``
-    ,repeat 
-i8  matchKey ,
-
-tag
-	Z9_
-	,
-	},  repeat 
-	// c
-    	/// triple
-uint64  zchar 
-        // packet A { u8 x, }
-    `doc`
-
-    , @tag(
-	255
-)
-
-repeat
-zchar[
-
-7
-
-]
-    lengthOf
-,} ")).
-Eval vm_compute in ("<<<M692>>>" ++ check (runes_of_ascii "packet
-    // packet A { u8 x, }
-    chars {
-match tag as BodyLength{7 : roots ,""a\\"":
-    lengthOf
-    , ""1""	:	chars
-// " ++ [128512]%N ++ runes_of_ascii " emoji
-// " ++ [27880; 37322]%N ++ runes_of_ascii "
-, //	t
-}
-    ,
-@leftPad
-( '\x00' )  _x@lengthOf( MetaDataX
-) ,  repeat
-x {
-    match Logon as options1
-{
-    //	t
-    3
-: Pad,
-    [""abc"" , // a // b
-7 , 3 ,  ""x y"" ] :
-o , [ 4294967296
-] : leftPad
-    /// triple
-    , """ ++ [28040; 24687]%N ++ runes_of_ascii """
-: Pad	,
-//
-//x
-},zchar[ 0123456789
-] leftPad, stringy T
-,
-    }, }
-options{ }")).
-Eval vm_compute in ("<<<M1297>>>" ++ check (runes_of_ascii "root
-packet u8x { @calculatedFrom( ""{,}"" ) // trailing space 
-@rightPad (
-    '\x00')@leftPad
-('0' )	match
-    len
-as options1 {  007 // " ++ [27880; 37322]%N ++ runes_of_ascii "
-: charz ,""abc"":
-    options1 }
-,
-@tag(	007 // `tick` ""quote"" 'q'
-) char[ 42] Foo @calculatedFrom(
-""" ++ [233]%N ++ runes_of_ascii "t" ++ [233]%N ++ runes_of_ascii """ ),  } //
-packet
-//x
-// `tick` ""quote"" 'q'
-u8x
-    {
-char[]
-// " ++ [27880; 37322]%N ++ runes_of_ascii "
-// c
-body , uint32 // " ++ [27880; 37322]%N ++ runes_of_ascii "
-packetx ,  @lengthOf( o) i8 calculatedFrom @calculatedFrom( ""CRC32"" ) ,
-    } // " ++ [128512]%N ++ runes_of_ascii " emoji")).
-Eval vm_compute in ("<<<M736>>>" ++ check (runes_of_ascii "options {} packet
-calculatedFrom { } packet T{ @tag(
-    42 ) match	len as
-matchKey {
-007  :
-o
-    , ""a\""b""
-: calculatedFrom [  00//
-,
-42  ,
-0 , 00 , 7 ]:
-trueish
-,	""packet"" // @lengthOf(
-: MetaDataX , }, int @calculatedFrom( ""a\""b""
-)`" ++ [233]%N ++ runes_of_ascii "` ,
-@lengthOf(zchar) @tag( 65535 ) repeat string // c
-uint8x , } MetaData leftPad
-    // `tick` ""quote"" 'q'
-    {
-}
-    //
-    packet tag {	repeat Z9_ x_y_z `a\` ,}
-")).
-Eval vm_compute in ("<<<M606>>>" ++ check (runes_of_ascii "
-options { x_y_z
-    =// @lengthOf(
-""x y"" ; }
-    // " ++ [27880; 37322]%N ++ runes_of_ascii "
-    packet
-int { @calculatedFrom( ""\" ++ [233]%N ++ runes_of_ascii """ ) match
-    MetaDataX
-as
-o {// c
-4294967296
-    : o , } ,
-    }
-    // packet A { u8 x, }
-    MetaData
-    asx {
-    As u8x `// not a comment` ,	char[]
-string_`doc` , i64_ Z9_
-    ,
-    i16 leftPad `it's`
-    // `tick` ""quote"" 'q'
-    ,
-u16	BodyLength `// not a comment`,
-lengthOf len ,
-    }")).
-Eval vm_compute in ("<<<M1021>>>" ++ check (runes_of_ascii "
-options {
-MetaDataX=  1;  matchKey	= ""it's"" ;f32a  = f64
-    // @lengthOf(
-    ; options1 = true
-}// `tick` ""quote"" 'q'
-packet
-    As{ //
-char[ 7]
-lengthOf
-@lengthOf( Foo )`line1
-line2`
-    , string msg_type
-// @lengthOf(
-// a // b
-@lengthOf( float )	,
-@calculatedFrom( ""packet"" )@tag( 00 ) o  falsey
-`line1
-line2` ,
-}MetaData  Foo
-{zchar[ 4294967296 ]	asx  ,
-//
-//
-}
-")).
-Eval vm_compute in ("<<<M4258>>>" ++ check (runes_of_ascii "
-MetaData  len 	 /// triple
-	{ //
-	f64
-
-    T  `u8 x,`,
-
-rootA stringy ,
-    zchar 
-repeatCount
-`say ""hi""`  ,
-
-MetaDataX
-As ,
-i8i8
-string_
-,
-x_y_z f32a, }
-    options 	 // c
-		{ 
-Logon
-//
-	=string 
-float 
-=
-
-    string
-    A
-    =
-
-""abc""/// triple
-    ;
-    //
-	A = ""\" ++ [233]%N ++ runes_of_ascii """ 
-Logon =7 
-}	options	{
-} 
-options
-{
-
-packetx =
-
-""abc""	// c
-	;  x =true }
-")).
-Eval vm_compute in ("<<<M528>>>" ++ check (runes_of_ascii "options  { charz
-    = char[ 0123456789
-] zchar= float32 ;} packet
-As
-    { x_y_z crc `{ , }` ,	} root
-    packet
-body { @lengthOf( Logon
-) Header repeatCount`it's`
-,	char[ /// triple
-255 ]
-u128@lengthOf( uint8x
-// " ++ [128512]%N ++ runes_of_ascii " emoji
-// a // b
-),
-    // a // b
-    repeat repeatCount`doc` //x
-,
-@lengthOf( packetx ) Z9_ x_y_z
-    // " ++ [27880; 37322]%N ++ runes_of_ascii "
-    `" ++ [28040; 24687; 31867; 22411]%N ++ runes_of_ascii "` ,}")).
-Eval vm_compute in ("<<<M1370>>>" ++ check (runes_of_ascii "options	{ rootA =""" ++ [28040; 24687]%N ++ runes_of_ascii """
-    ;a1 = // a // b
-'\x00' ;
-    asx=	' '} MetaData string_ { char[]
-    i64_ `it's` ,  }
-packet
-float {@calculatedFrom(	""// no comment"" ) repeat char[]  Z9_, @lengthOf(
-Foo
-    ) uint16
-u @calculatedFrom( ""\n"" )	, repeat uint32 a1 , // `tick` ""quote"" 'q'
-Logon
-// " ++ [128512]%N ++ runes_of_ascii " emoji
-// " ++ [128512]%N ++ runes_of_ascii " emoji
-`line1
-line2`, }
-//
-")).
-Eval vm_compute in ("<<<M96>>>" ++ check (runes_of_ascii "options{
-} packet /// triple
-chars {
-int64 i8i8
-    /// triple
-    @calculatedFrom( ""// no comment"" ) `line1
-line2` ,
-@calculatedFrom(
-""`tick`"" )
-    _x
-    `" ++ [28040; 24687; 31867; 22411]%N ++ runes_of_ascii "` , match
-float /// triple
-as BodyLength  {//
-""" ++ [28040; 24687]%N ++ runes_of_ascii """:
-    x_y_z [ 7 , 10
-    , """ ++ [233]%N ++ runes_of_ascii "t" ++ [233]%N ++ runes_of_ascii """	, 1 ,""x y"" , 3 ] :	i64_	,
-} , // a // b
-} packet
-uint8x { } // " ++ [27880; 37322]%N)).
-Eval vm_compute in ("<<<M378>>>" ++ check (runes_of_ascii "options
-{//
-matchKey//x
-=
-42	x
-    = '0';
-charz= true
-;  }MetaData	BodyLength
-{
-uint8 pack , zchar[ 1
-]float, float32 x_y_z `` ,	u32 _x	, i16 body, } // a // b
-MetaData asx { leftPad falsey ,
-char[] float	,
-char[] // `tick` ""quote"" 'q'
-u128
-    ,  char[]	float
-, u64 // " ++ [128512]%N ++ runes_of_ascii " emoji
-tag
-,
-    //	t
-    }
-")).
-Eval vm_compute in ("<<<M1411>>>" ++ check (runes_of_ascii "root root packet Foo // " ++ [128512]%N ++ runes_of_ascii " emoji
-{ } options {
-    // a // b
-    tag // `tick` ""quote"" 'q'
-= //	t
-""""
-    ; u8x = zchar[0  ] }
-MetaData
-    int {zchar[ 10]
-lengthOf	`` , i64 u8x`// not a comment` ,MetaDataX pack// `tick` ""quote"" 'q'
-`crlf
-line`
-, Logon charz `crlf
-line`
-    ,
-    // a // b
-    }
-")).
-Eval vm_compute in ("<<<M306>>>" ++ check (runes_of_ascii "
-packet charz
-    { @lengthOf( Pad
-) match rootA as	string_ { [ 0123456789 ]
-// a // b
-//
-: repeatCount [
-    00 ,""it's""
-] : T ,
-    0 // packet A { u8 x, }
-: stringy,
-    4294967296 :
-msg_type ,/// triple
-} ,} packet lengthOf
-{
-@tag( 7 ) char[
-    255 ]
-float@calculatedFrom( ""packet"" ),  }
-")).
-Eval vm_compute in ("<<<M1609>>>" ++ check (runes_of_ascii "root packet Foo // " ++ [128512]%N ++ runes_of_ascii " emoji
-{ } options {
-    // a // b
-    tag // `tick` ""quote"" 'q'
-= //	t
-""""
-    ; u8x = zchar[0  ] }
-MetaData
-    int {zchar[ 10]
-lengthOf	`` , i64 u8x`// not a comment` ,MetaDataX pack// `tick` ""quote"" 'q'
-`crlf
-line`
-, Logon charz `crlf
-line`
-   % ,
-    // a // b
-    }
-")).
-Eval vm_compute in ("<<<M1531>>>" ++ check (runes_of_ascii "root packet Foo // " ++ [128512]%N ++ runes_of_ascii " emoji
-{ } options {
-    // a // b
-    tag // `tick` ""quote"" 'q'
-= //	t
-""""
-    ; u8x = zchar[0  ] }
-MetaData
-    int {zchar[ 10]
-lengthOf	, `` i64 u8x`// not a comment` ,MetaDataX pack// `tick` ""quote"" 'q'
-`crlf
-line`
-, Logon charz `crlf
-line`
-    ,
-    // a // b
-    }
-")).
-Eval vm_compute in ("<<<M1534>>>" ++ check (runes_of_ascii "root packet Foo // " ++ [128512]%N ++ runes_of_ascii " emoji
-{ } options {
-    // a // b
-    tag // `tick` ""quote"" 'q'
-= //	t
-""""
-    ; u8x = zchar[0  ] }
-MetaData
-    int {zchar[ 10]
-lengthOf	``  i64 u8x`// not a comment` ,MetaDataX pack// `tick` ""quote"" 'q'
-`crlf
-line`
-, Logon charz `crlf
-line`
-    ,
-    // a // b
-    }
-")).
-Eval vm_compute in ("<<<M3491>>>" ++ check (runes_of_ascii "packet 
-MDSnapshotZZ
-{
-	u8 a , 
-}  packet OrderACK {
-    u16
-
-    b
-
-    , }
-
-packet
-HTTPServerInfo{  string s  , 
-}	root 
-packet
-FIXMsg { u8	KType
-
-    ,  MDSnapshotZZ,repeat
-
-OrderACK
-,	match 
-KType  as Body {
-	1 : HTTPServerInfo
-,
-
-    2
-	:
-
-    OrderACK  ,
-	}
-
-    ,
-}
-")).
-Eval vm_compute in ("<<<M1589>>>" ++ check (runes_of_ascii "root packet Foo // " ++ [128512]%N ++ runes_of_ascii " emoji
-{ } options {
-    // a // b
-    tag // `tick` ""quote"" 'q'
-= //	t
-""""
-    ; u8x = zchar[0  ] }
-MetaData
-    int {zchar[ 10]
-lengthOf	`` , i64 u8x`// not a comment` ,MetaDataX pack// `tick` ""quote"" 'q'
-`crlf
-line`
-, Logon charz 
-    ,
-    // a // b
-    }
-")).
-Eval vm_compute in ("<<<M1265>>>" ++ check (runes_of_ascii "root packet metadata {// packet A { u8 x, }
-@tag(
-    7)
-@rightPad (
-'0')
-match
-o as
-asx {
-// packet A { u8 x, }
-// packet A { u8 x, }
-[ 65535/// triple
-, ""a	b""] :tag , 0 :
-// c
-// " ++ [128512]%N ++ runes_of_ascii " emoji
-matchKey ,  4294967296:o// `tick` ""quote"" 'q'
-, ""it's"": /// triple
-_x	,}	, }
-")).
-Eval vm_compute in ("<<<M3452>>>" ++ check (runes_of_ascii "// top
-options // c0a
-  // c0b
-{ LittleEndian = // c3a
-  // c3b
-true ; // c5a
-  // c5b
-} // c6
+Eval vm_compute in ("<<<M11>>>" ++ check (runes_of_ascii "packet u128 {
+@rightPad ( )
+@tag( 7) stringy
+body , }// packet A { u8 x, }
 root
-    // c7
-packet P
-    // c9
-{ u16
-    // c11
-a , u32 // c14a
-  // c14b
-Sum @calculatedFrom( // c16a
-  // c16b
-""CRC32"" // c17
-) , // c19
-} // c20a
-  // c20b
-")).
-Eval vm_compute in ("<<<M4481>>>" ++ check (runes_of_ascii "
-options{
-
-    roots
-=
-
-    uint8 ;asx
-    =	' '
-
+    packet // " ++ [27880; 37322]%N ++ runes_of_ascii "
+i64_
+    { }
+    packet falsey	{
+float@lengthOf(_x //	t
+)`" ++ [233]%N ++ runes_of_ascii "`
+, i32 a1 ,
+u {//	t
+string	crc
+,  } ,@leftPad
     // a // b
-;
-}  options 
-
+    (
+)repeat
+    options1 { calculatedFrom @calculatedFrom(
+    ""it's"" ) `{ , }`	, zchar falsey `u8 x,` ,repeat falsey  , }
+// packet A { u8 x, }
+//x
+, }root // " ++ [128512]%N ++ runes_of_ascii " emoji
+packet pack
+    { @tag( 0123456789 ) // @lengthOf(
+repeat
+//
+// " ++ [27880; 37322]%N ++ runes_of_ascii "
+uint32
+roots, }")).
+Eval vm_compute in ("<<<M1359>>>" ++ check (runes_of_ascii "MetaData calculatedFrom { float // " ++ [27880; 37322]%N ++ runes_of_ascii "
+len , u8
+uint8x , falsey	string_
+// packet A { u8 x, }
 // a // b
-
-{} root
+,
+} MetaData
+falsey { } packet // @lengthOf(
+T
+{
+//x
+//x
+zchar[ 007 ] Packet @calculatedFrom(
+    ""// no comment"" )`{ , }` , repeat
+    u64 metadata //	t
+,
+u { char[255] T `u8 x,` , body,zchar[
+255]	repeatCount
+,},// a // b
+@calculatedFrom( ""// no comment""
+    )@leftPad( '\x00' )
+@lengthOf(
+    i64_) zchar[ 65535 ]float @lengthOf(trueish ) , }
+")).
+Eval vm_compute in ("<<<M373>>>" ++ check (runes_of_ascii "root	packet chars
+{ falsey , uint64 f32a @lengthOf( lengthOf
+) , // c
+}MetaData T{ char[] As ,
+} // trailing space 
 packet
-Packet { @lengthOf(
-	T )
-
-@calculatedFrom(
-    ""abc""
-) @calculatedFrom(""1""
-    )
-    A  // c
-	  lengthOf
-    ,
-
-    } 
-/// triple
- 
+tag {
+    i64
+    Foo @lengthOf(
+    a1 ),@calculatedFrom(""" ++ [128512]%N ++ runes_of_ascii """ ) @leftPad ( '\x00'// " ++ [128512]%N ++ runes_of_ascii " emoji
+)
+    // a // b
+    @leftPad('\x00')
+repeat Foo MetaDataX , } root
+packet body {
+repeat u64
+    MetaDataX `u8 x,` ,
+@rightPad
+    (
+    ' ' )
+charz	@lengthOf(matchKey ) ,	@calculatedFrom(
+""""
+    )len @lengthOf(tag )
+, }
 ")).
-Eval vm_compute in ("<<<M669>>>" ++ check (runes_of_ascii "
-root packet roots { @tag( 42  )repeat // " ++ [128512]%N ++ runes_of_ascii " emoji
-string //	t
-options1,
-}
-MetaData crc{ pack metadata `line1
-line2`
-,	int64 asx
-// a // b
-//	t
-, // " ++ [27880; 37322]%N ++ runes_of_ascii "
-A float ,char[65535 ]Z9_ `tab	here`
-,
-u8 u128 `` // trailing space 
-,// a // b
-}
-")).
-Eval vm_compute in ("<<<M3663>>>" ++ check (runes_of_ascii "
-options
-	{	roots 
-=
-u8 f32a =
-
-    '\x00' BodyLength = """ ++ [28040; 24687]%N ++ runes_of_ascii """
-} 
-MetaData 	 // a // b
-    packetx{
-
-i32
-options1, zchar[1
-]
-
-u8x  // @lengthOf(
-    	`doc`
-,
-    zchar[
-7
-	]
-matchKey 	 // " ++ [27880; 37322]%N ++ runes_of_ascii "
+Eval vm_compute in ("<<<M4060>>>" ++ check (runes_of_ascii "
+packet
+    i64_ { x_y_z
+`it's`
 
 , 
-int8
-    As  `crlf
-line`, }")).
-Eval vm_compute in ("<<<M2231>>>" ++ check (runes_of_ascii "MetaData Packet { }packet packet	asx  { @lengthOf( asx) falsey`crlf
-line`
-,
-    }
-    packet x	{uint32// @lengthOf(
-rootA	,u32 options1 `say ""hi""` , @tag( 7
-    )// packet A { u8 x, }
-msg_type @lengthOf(
-stringy	)	, }
+o	@lengthOf( 
+i64_) 
 
-")).
-Eval vm_compute in ("<<<M2258>>>" ++ check (runes_of_ascii "MetaData Packet { }packet	asx  { @lengthOf( asx i32 falsey`crlf
-line`
-,
-    }
-    packet x	{uint32// @lengthOf(
-rootA	,u32 options1 `say ""hi""` , @tag( 7
-    )// packet A { u8 x, }
-msg_type @lengthOf(
-stringy	)	, }
-
-")).
-Eval vm_compute in ("<<<M2379>>>" ++ check (runes_of_ascii "MetaData Packet { }packet	asx  { @lengthOf( asx) falsey`crlf
-line`
-$,
-    }
-    packet x	{uint32// @lengthOf(
-rootA	,u32 options1 `say ""hi""` , @tag( 7
-    )// packet A { u8 x, }
-msg_type @lengthOf(
-stringy	)	, }
-
-")).
-Eval vm_compute in ("<<<M2317>>>" ++ check (runes_of_ascii "MetaData Packet { }packet	asx  { @lengthOf( asx) falsey`crlf
-line`
-,
-    }
-    packet x	{uint32// @lengthOf(
-rootA	,u32 `say ""hi""` options1 , @tag( 7
-    )// packet A { u8 x, }
-msg_type @lengthOf(
-stringy	)	, }
-
-")).
-Eval vm_compute in ("<<<M2370>>>" ++ check (runes_of_ascii "MetaData Packet { }packet	asx  { @lengthOf( asx) falsey`crlf
-line`
-,
-    }
-    packet x	{uint32// @lengthOf(
-rootA	,u32 options1 `say ""hi""` , @tag( 7
-    )// packet A { u8 x, }
-msg_type @lengthOf(
-stringy	)	, 
-
-")).
-Eval vm_compute in ("<<<M2280>>>" ++ check (runes_of_ascii "MetaData Packet { }packet	asx  { @lengthOf( asx) falsey`crlf
-line`
-,
-    }
-     x	{uint32// @lengthOf(
-rootA	,u32 options1 `say ""hi""` , @tag( 7
-    )// packet A { u8 x, }
-msg_type @lengthOf(
-stringy	)	, }
-
-")).
-Eval vm_compute in ("<<<M2350>>>" ++ check (runes_of_ascii "MetaData Packet { }packet	asx  { @lengthOf( asx) falsey`crlf
-line`
-,
-    }
-    packet x	{uint32// @lengthOf(
-rootA	,u32 options1 `say ""hi""` , @tag( 7
-    )// packet A { u8 x, }
-msg_type 
-stringy	)	, }
-
-")).
-Eval vm_compute in ("<<<M1234>>>" ++ check (runes_of_ascii "packet zchar
-    // @lengthOf(
-    {
-@tag( 255 ) match  u128 as roots { 0123456789 : //x
-u} ,
-zchar[ 4294967296
-]charz// " ++ [128512]%N ++ runes_of_ascii " emoji
-`tab	here`
-, // " ++ [27880; 37322]%N ++ runes_of_ascii "
-match
-uint8x as leftPad { 10
-: _x //x
-, }, }
-")).
-Eval vm_compute in ("<<<M1008>>>" ++ check (runes_of_ascii "MetaData stringy
-{ u len `line1
-line2`,zchar[42
-]
-pack
-    ,char[7 ] f32a //	t
-`say ""hi""` // @lengthOf(
-,
     // a // b
-    char[
-    7] i8i8
-, }
-    packet// " ++ [128512]%N ++ runes_of_ascii " emoji
-float
-    { }
+
+,	char[ 007]
+trueish
+// trailing space 
+	/// triple
+
+@lengthOf(	leftPad 
+),
+} 
+MetaData
+    tag {
+char[ 65535
+
+] 
+
 // c
+  /// triple
+    	pack
+
+,
+	int64
+Logon  `two words` 
+,	// a // b
+
+}
+packet
+u8x
+
+    {
+	float64
+
+    lengthOf , 
+repeat char[]
+	As ,u
+
+BodyLength ,tag {
+	repeat
+BodyLength
+	{ 	 // a // b
+uint16
+	zchar`doc` , } , }
+,}
 ")).
-Eval vm_compute in ("<<<M3657>>>" ++ check (runes_of_ascii "
-
-  options{ 
-chars	= ""abc""
-
-    ;
-}
-    packet
-string_
-	{
-uint8x x_y_z	,string
-Header 
-`
-`	,
-
-}
-	packet 
-pack  // a // b
-	{	Z9_ @lengthOf(	chars)	/// triple
-      `" ++ [233]%N ++ runes_of_ascii "`
+Eval vm_compute in ("<<<M1043>>>" ++ check (runes_of_ascii "packet // `tick` ""quote"" 'q'
+i8i8 {
+    // c
+    } MetaData repeatCount
+    //	t
+    {f32a leftPad
+    /// triple
+    `" ++ [233]%N ++ runes_of_ascii "` /// triple
+, BodyLength leftPad `line1
+line2`	, }packet lengthOf
+{	@lengthOf( tag)zchar[ 65535] stringy `
+` ,match // packet A { u8 x, }
+f32a
+    as
+u8x { 255 : o, [	007
+, // c
+""" ++ [28040; 24687]%N ++ runes_of_ascii """ , 255, 7, 3
+]//x
+:body , ""\" ++ [233]%N ++ runes_of_ascii """
+    :  zchar	, }, @leftPad( '\x00' ) Pad @calculatedFrom(  """ ++ [28040; 24687]%N ++ runes_of_ascii """
+) , }")).
+Eval vm_compute in ("<<<M361>>>" ++ check (runes_of_ascii "// c
+packet float// `tick` ""quote"" 'q'
+{ match tag
+as	x // " ++ [128512]%N ++ runes_of_ascii " emoji
+{
+""\n"" :
+    // a // b
+    A ,
+} , @lengthOf(
+    o ) A  , char[ 4294967296 ] o @lengthOf( // packet A { u8 x, }
+a1 ) , }	packet x {
+    char[
+3 ] BodyLength
 , }
+packet Header { @lengthOf( stringy )
+@tag(42	)@calculatedFrom(""1"" ) zchar[ 0123456789 ] As
+@lengthOf(
+    // a // b
+    packetx ) `// not a comment` , } //	t")).
+Eval vm_compute in ("<<<M4337>>>" ++ check (runes_of_ascii "root packet A {
+    /// triple
+    repeat string Packet `say ""hi""`,
+}
 
+MetaData o {
+    char[] u128 `line1
+        line2`,
+    lengthOf x_y_z,
+    char[1] i8i8 `a\`,
+    int16 leftPad `two words`,
+    i16 asx,
+}// packet A { u8 x, }
+
+MetaData charz {
+    Header a1,
+    Header trueish `u8 x,`,
+    u128 stringy,
+    uint8 matchKey,
+    uint32 options1,
+    matchKey i8i8,
+}")).
+Eval vm_compute in ("<<<M304>>>" ++ check (runes_of_ascii "
+MetaData
+a1 {
+u128// @lengthOf(
+As ,char[
+4294967296] lengthOf ,
+uint64 msg_type	, x_y_z f32a
+, float32	o // " ++ [27880; 37322]%N ++ runes_of_ascii "
+,	} options
+// " ++ [27880; 37322]%N ++ runes_of_ascii "
+// " ++ [128512]%N ++ runes_of_ascii " emoji
+{
+//x
+// @lengthOf(
+}MetaData string_
+    {
+}
+packet roots {
+repeat f32 As `" ++ [28040; 24687; 31867; 22411]%N ++ runes_of_ascii "` , } options {
+    // " ++ [128512]%N ++ runes_of_ascii " emoji
+    uint8x = ""a	b""Packet//
+=42
+;pack =
+    10
+    ;
+    tag= string	; repeatCount = // " ++ [27880; 37322]%N ++ runes_of_ascii "
+char[ 0	] ; }")).
+Eval vm_compute in ("<<<M3563>>>" ++ check (runes_of_ascii "root
+	packet
+
+Foo // " ++ [128512]%N ++ runes_of_ascii " emoji
+
+	{ }  options { 
+    // a // b
+  	tag	// `tick` ""quote"" 'q'
+=//	t
+  	""""
+    ;  u8x =
+	zchar[
+
+    0 ] 
+}
+
+    MetaData int
+
+    {zchar[10 ]
+	lengthOf`` 
+,
+	i64 u8x  `// not a comment`
+    , MetaDataX
+
+    pack  // `tick` ""quote"" 'q'
+	`crlf
+line`,
+
+    Logon 
+charz`crlf
+line` , 
+//'1' a // b
+		}
 ")).
-Eval vm_compute in ("<<<M3468>>>" ++ check (runes_of_ascii "packet A {
-    u8 a,
+Eval vm_compute in ("<<<M4230>>>" ++ check (runes_of_ascii "packet o {
+    @lengthOf(As)
+    calculatedFrom @lengthOf(matchKey),// a // b
 }
-packet B {
-    u16 b,
-}
-root packet P {
-    u8 K1,
-    u8 K2,
-    match K1 as M1 {
-        1 : A,
+
+packet options1 {
+    match x as Foo {
+        [""a\""b"", 7] : u128,
+        """ ++ [128512]%N ++ runes_of_ascii """ : Packet,
     },
-    match K2 as M2 {
-        1 : B,
-    },
+    repeat pack len `tab	here`,
+    msg_type,
+    @calculatedFrom(""" ++ [128512]%N ++ runes_of_ascii """)
+    char[10] zchar,
 }
+
+options {
+    metadata = ""CRC32"";
+    uint8x = false;
+}")).
+Eval vm_compute in ("<<<M1020>>>" ++ check (runes_of_ascii "packet
+stringy { string_
+    , }
+packet
+rootA
+    { f32
+A @lengthOf( lengthOf ) , @calculatedFrom(	""" ++ [233]%N ++ runes_of_ascii "t" ++ [233]%N ++ runes_of_ascii """ )zchar[ 4294967296// " ++ [27880; 37322]%N ++ runes_of_ascii "
+] float @lengthOf( Foo ) ,
+@rightPad (
+    '0' )
+// `tick` ""quote"" 'q'
+// packet A { u8 x, }
+string
+body
+`" ++ [233]%N ++ runes_of_ascii "` ,char[ 42
+//	t
+// packet A { u8 x, }
+] Logon @lengthOf( uint8x ) `u8 x,` , }
 ")).
-Eval vm_compute in ("<<<M1548>>>" ++ check (runes_of_ascii "root packet Foo // " ++ [128512]%N ++ runes_of_ascii " emoji
+Eval vm_compute in ("<<<M3671>>>" ++ check (runes_of_ascii "packet chars {
+}
+
+packet int {
+    options1 {
+        repeat int32 u,
+        char[] Pad `" ++ [28040; 24687; 31867; 22411]%N ++ runes_of_ascii "`,
+    },
+    repeat char[] T,
+    match u128 as Packet {
+        ""\n"" : MetaDataX,
+        ""\n"" : falsey,
+        ""a	b"" : i8i8,
+        ""it's"" : options1,
+        ""`tick`"" : pack,
+        ""\" ++ [233]%N ++ runes_of_ascii """ : int,
+    },
+}")).
+Eval vm_compute in ("<<<M1542>>>" ++ check (runes_of_ascii "root packet Foo // " ++ [128512]%N ++ runes_of_ascii " emoji
 { } options {
     // a // b
     tag // `tick` ""quote"" 'q'
@@ -2207,426 +1560,755 @@ Eval vm_compute in ("<<<M1548>>>" ++ check (runes_of_ascii "root packet Foo // "
     ; u8x = zchar[0  ] }
 MetaData
     int {zchar[ 10]
-lengthOf	`` , i64")).
-Eval vm_compute in ("<<<M447>>>" ++ check (runes_of_ascii "root  packet msg_type
-// " ++ [27880; 37322]%N ++ runes_of_ascii "
-//	t
-{ string lengthOf `a\`
-,
-    @tag( 65535) rootA calculatedFrom , char[]	crc `{ , }`  ,
-zchar[
-// c
-//	t
-65535 ]msg_type , }
-")).
-Eval vm_compute in ("<<<M3474>>>" ++ check (runes_of_ascii "packet A {
-    u8 a,
-}
-packet B {
-    u16 b,
-}
-root packet P {
-    u8 K,
-    match K as M {
-        [1, 2] : A,
-        3 : B,
-        7 : A,
-    },
-}
-")).
-Eval vm_compute in ("<<<M10>>>" ++ check (runes_of_ascii "MetaData
-    chars{
-char[]Header `say ""hi""`
-,
-    char[] matchKey
-,char[ 1
-    ]  u8x , zchar A ,x falsey
-,
-zchar[ 42
-    ] calculatedFrom , }
-")).
-Eval vm_compute in ("<<<M3812>>>" ++ check (runes_of_ascii "packet A {
-    u16 len @lengthOf(body) `a
-        b
-      c`,
-    u32 crc @calculatedFrom(""CRC32"") `a
-        b
-      c`,
-    string body,
-}")).
-Eval vm_compute in ("<<<M3990>>>" ++ check (runes_of_ascii "  packet A
-    {  match	k
-    as
-
-n
-    {
-
-[
-	1
-
+lengthOf	`` , float64 u8x`// not a comment` ,MetaDataX pack// `tick` ""quote"" 'q'
+`crlf
+line`
+, Logon charz `crlf
+line`
     ,
-	""bb"" , 007 
-,  ""d"" ,
-	5
-, ""f""
-,	7
-
-,  ""h""
-	,
-9 ] 
-:B
-, 2 : C }
-    ,
+    // a // b
     }
 ")).
-Eval vm_compute in ("<<<M1721>>>" ++ check (runes_of_ascii "root @tag packet /// triple
+Eval vm_compute in ("<<<M1505>>>" ++ check (runes_of_ascii "root packet Foo // " ++ [128512]%N ++ runes_of_ascii " emoji
+{ } options {
+    // a // b
+    tag // `tick` ""quote"" 'q'
+= //	t
+""""
+    ; u8x = zchar[0  ] }
+MetaData
+    int { {zchar[ 10]
+lengthOf	`` , i64 u8x`// not a comment` ,MetaDataX pack// `tick` ""quote"" 'q'
+`crlf
+line`
+, Logon charz `crlf
+line`
+    ,
+    // a // b
+    }
+")).
+Eval vm_compute in ("<<<M1417>>>" ++ check (runes_of_ascii "root uint64 Foo // " ++ [128512]%N ++ runes_of_ascii " emoji
+{ } options {
+    // a // b
+    tag // `tick` ""quote"" 'q'
+= //	t
+""""
+    ; u8x = zchar[0  ] }
+MetaData
+    int {zchar[ 10]
+lengthOf	`` , i64 u8x`// not a comment` ,MetaDataX pack// `tick` ""quote"" 'q'
+`crlf
+line`
+, Logon charz `crlf
+line`
+    ,
+    // a // b
+    }
+")).
+Eval vm_compute in ("<<<M1581>>>" ++ check (runes_of_ascii "root packet Foo // " ++ [128512]%N ++ runes_of_ascii " emoji
+{ } options {
+    // a // b
+    tag // `tick` ""quote"" 'q'
+= //	t
+""""
+    ; u8x = zchar[0  ] }
+MetaData
+    int {zchar[ 10]
+lengthOf	`` , i64 u8x`// not a comment` ,MetaDataX pack// `tick` ""quote"" 'q'
+`crlf
+line`
+, charz Logon `crlf
+line`
+    ,
+    // a // b
+    }
+")).
+Eval vm_compute in ("<<<M318>>>" ++ check (runes_of_ascii "
+packet As { @leftPad
+( )
+    @leftPad ( ' '  )char[] zchar, A string_
+`" ++ [233]%N ++ runes_of_ascii "`
+,
+a1
+    {	Z9_ @lengthOf(
+    repeatCount )
+    , u128
+{ zchar[4294967296 ] crc
+//x
+//
+@calculatedFrom(  ""packet"" ) ,repeat char x_y_z, }
+,	u8
+    Logon	@calculatedFrom(
+    """ ++ [233]%N ++ runes_of_ascii "t" ++ [233]%N ++ runes_of_ascii """ ) , }, }
+packet
+u { } // " ++ [128512]%N ++ runes_of_ascii " emoji")).
+Eval vm_compute in ("<<<M1474>>>" ++ check (runes_of_ascii "root packet Foo // " ++ [128512]%N ++ runes_of_ascii " emoji
+{ } options {
+    // a // b
+    tag // `tick` ""quote"" 'q'
+= //	t
+""""
+    ; u8x = 0  ] }
+MetaData
+    int {zchar[ 10]
+lengthOf	`` , i64 u8x`// not a comment` ,MetaDataX pack// `tick` ""quote"" 'q'
+`crlf
+line`
+, Logon charz `crlf
+line`
+    ,
+    // a // b
+    }
+")).
+Eval vm_compute in ("<<<M1152>>>" ++ check (runes_of_ascii "MetaData x_y_z{
+} packet Foo{  repeat i64_{
+int32 f32a
+    , } , i8i8
+    @lengthOf( lengthOf ) , @lengthOf( matchKey ) @leftPad
+(
+    '0'	) repeat uint8x { u{ zchar[
+7]
+    i64_ @calculatedFrom( ""\" ++ [233]%N ++ runes_of_ascii """ ) `two words` , repeat char[] Z9_ `doc`,	} , }
+, f32 calculatedFrom `doc`	,}
+")).
+Eval vm_compute in ("<<<M1598>>>" ++ check (runes_of_ascii "root packet Foo // " ++ [128512]%N ++ runes_of_ascii " emoji
+{ } options {
+    // a // b
+    tag // `tick` ""quote"" 'q'
+= //	t
+""""
+    ; u8x = zchar[0  ] }
+MetaData
+    int {zchar[ 10]
+lengthOf	`` , i64 u8x`// not a comment` ,MetaDataX pack// `tick` ""quote"" 'q'
+`crlf
+line`
+, Logon charz `crlf
+line`")).
+Eval vm_compute in ("<<<M3825>>>" ++ check (runes_of_ascii "
+MetaData
+pack
+
+    { Header
+len
+	,}packet i8i8 {
+
+    pack @lengthOf( 	 // @lengthOf(
+  	int
+	)
+    ,
+} root packet
+
+// `tick` ""quote"" 'q'
+	// c
+    MetaDataX
+{ 
+char[
+007  ]
+
+metadata ,}  MetaData  //x
+	MetaDataX {	int
+        //x
+    	o	,
+}
+")).
+Eval vm_compute in ("<<<M4000>>>" ++ check (runes_of_ascii "options 
+{  uint8x =""\n""
+	; 
+  // " ++ [128512]%N ++ runes_of_ascii " emoji
+  // packet A { u8 x, }
+    	} packet  
+      //
+  repeatCount
+    {  roots len,
+
+    @lengthOf(
+	f32a
+    )
+        // `tick` ""quote"" 'q'
+o
+`say ""hi""` ,} //	t
+
+	options //x
+  {
+	a1
+
+=
+u32
+    ;
+	}
+
+")).
+Eval vm_compute in ("<<<M4244>>>" ++ check (runes_of_ascii "// a // b
+      packet	/// triple
+	tag{ 
+match As as o{
+    ""`tick`"" 
+:	float , }
+
+,
+
+    string 	 // c
+    u128`two words` ,	}
+// " ++ [27880; 37322]%N ++ runes_of_ascii "
+
+// packet A { u8 x, }
+	packet
+
+    lengthOf
+	{
+
+int64
+	u@calculatedFrom(  """ ++ [233]%N ++ runes_of_ascii "t" ++ [233]%N ++ runes_of_ascii """
+)
+
+    ,
+}")).
+Eval vm_compute in ("<<<M3551>>>" ++ check (runes_of_ascii "packet Sub {
+    u8 a,
+    u32 SubSum @calculatedFrom(""CRC16""),
+}
+root packet Frame {
+    u16 MsgType,
+    u16 BodyLen @lengthOf(Body),
+    Sub Body,
+    string note,
+    u32 Checksum @calculatedFrom(""CRC16""),
+    u8 tail,
+}
+")).
+Eval vm_compute in ("<<<M2293>>>" ++ check (runes_of_ascii "MetaData Packet { }packet	asx  { @lengthOf( asx) falsey`crlf
+line`
+,
+    }
+    packet x	string uint32// @lengthOf(
+rootA	,u32 options1 `say ""hi""` , @tag( 7
+    )// packet A { u8 x, }
+msg_type @lengthOf(
+stringy	)	, }
+
+")).
+Eval vm_compute in ("<<<M2298>>>" ++ check (runes_of_ascii "MetaData Packet { }packet	asx  { @lengthOf( asx) falsey`crlf
+line`
+,
+    }
+    packet x	{@leftPad// @lengthOf(
+rootA	,u32 options1 `say ""hi""` , @tag( 7
+    )// packet A { u8 x, }
+msg_type @lengthOf(
+stringy	)	, }
+
+")).
+Eval vm_compute in ("<<<M2214>>>" ++ check (runes_of_ascii "Packet MetaData { }packet	asx  { @lengthOf( asx) falsey`crlf
+line`
+,
+    }
+    packet x	{uint32// @lengthOf(
+rootA	,u32 options1 `say ""hi""` , @tag( 7
+    )// packet A { u8 x, }
+msg_type @lengthOf(
+stringy	)	, }
+
+")).
+Eval vm_compute in ("<<<M3289>>>" ++ check (runes_of_ascii "// top
+packet // c0
+o // c1
+{ // c2
+@tag( // c3
+42 // c4
+) // c5
+repeat // c6
+x // c7
+{ // c8
+char[ // c9
+0123456789 // c10
+] // c11
+i64_ // c12
+, // c13
+} // c14
+, // c15
+} // c16
+options // c17
+{ // c18
+} // c19
+")).
+Eval vm_compute in ("<<<M2394>>>" ++ check (runes_of_ascii "MetaData a" ++ [769]%N ++ runes_of_ascii "b { }packet	asx  { @lengthOf( asx) falsey`crlf
+line`
+,
+    }
+    packet x	{uint32// @lengthOf(
+rootA	,u32 options1 `say ""hi""` , @tag( 7
+    )// packet A { u8 x, }
+msg_type @lengthOf(
+stringy	)	, }
+
+")).
+Eval vm_compute in ("<<<M839>>>" ++ check (runes_of_ascii "packet Z9_ { i32 body
+,	u64 u8x @lengthOf(
+    // trailing space 
+    x_y_z ) ,@lengthOf( u128
+    ) zchar[
+    00 ] stringy,
+repeat uint8
+leftPad , } packet matchKey { } // @lengthOf(
+packet pack //
+{}
+")).
+Eval vm_compute in ("<<<M637>>>" ++ check (runes_of_ascii "root //
+packet A // packet A { u8 x, }
+{ @lengthOf( calculatedFrom )
+@tag( 65535 ) charz @lengthOf(charz
+    )  , } options {
+crc
+= 65535 }
+options
+    {leftPad // @lengthOf(
+=1
+    A =
+true
+;
+}
+")).
+Eval vm_compute in ("<<<M604>>>" ++ check (runes_of_ascii "options { rootA = '\x00' _x = true
+//
+// @lengthOf(
+}
+    packet //
+uint8x
+{ uint16 u
+    /// triple
+    @lengthOf( x_y_z )
+    //
+    `say ""hi""` ,} MetaData // @lengthOf(
+_x { } options
+{ }
+")).
+Eval vm_compute in ("<<<M3839>>>" ++ check (runes_of_ascii "packet stringy {
+    @tag(0)
+    // packet A { u8 x, }
+    repeatCount,
+    @calculatedFrom("""")
+    body falsey,
+    @lengthOf(chars)
+    repeat x_y_z `two words`,
+    repeatCount Pad,
+}")).
+Eval vm_compute in ("<<<M162>>>" ++ check (runes_of_ascii "packet float {// a // b
+@lengthOf(
+    T ) repeat charz
+    {
+    // c
+    packetx @calculatedFrom( """ ++ [28040; 24687]%N ++ runes_of_ascii """)
+    `" ++ [233]%N ++ runes_of_ascii "` // " ++ [27880; 37322]%N ++ runes_of_ascii "
+, char[
+4294967296 //x
+]Header	,  }
+    , } /// triple")).
+Eval vm_compute in ("<<<M295>>>" ++ check (runes_of_ascii "options{zchar
+=7 ;
+// c
+// packet A { u8 x, }
+msg_type =	uint8 falsey =	1 ;
+}
+    MetaData  Pad// @lengthOf(
+{ f64	u `tab	here`
+,// a // b
+}	options {
+    }
+// " ++ [128512]%N ++ runes_of_ascii " emoji
+")).
+Eval vm_compute in ("<<<M1258>>>" ++ check (runes_of_ascii "packet
+    stringy { @tag( 007
+)
+@calculatedFrom(
+""packet""
+    ) repeat// " ++ [27880; 37322]%N ++ runes_of_ascii "
+i64
+    x, _x// a // b
+, repeat char[7]Packet , }root packet body	{ i32	Pad
+,
+    }")).
+Eval vm_compute in ("<<<M421>>>" ++ check (runes_of_ascii "// c
+options
+{	x
+    = ""1"" x =	'\x00'	; body =65535
+    // `tick` ""quote"" 'q'
+    ; repeatCount = // packet A { u8 x, }
+' '
+trueish = // " ++ [128512]%N ++ runes_of_ascii " emoji
+char[]
+}
+")).
+Eval vm_compute in ("<<<M55>>>" ++ check (runes_of_ascii "
+packet Foo
+    {
+    repeat
+int
+    //x
+    { string u @calculatedFrom( ""packet"")	`` // @lengthOf(
+,}
+,zchar[ 007 ]  A
+    `doc`, }
+options { }")).
+Eval vm_compute in ("<<<M1518>>>" ++ check (runes_of_ascii "root packet Foo // " ++ [128512]%N ++ runes_of_ascii " emoji
+{ } options {
+    // a // b
+    tag // `tick` ""quote"" 'q'
+= //	t
+""""
+    ; u8x = zchar[0  ] }
+MetaData
+    int {zchar[")).
+Eval vm_compute in ("<<<M1513>>>" ++ check (runes_of_ascii "root packet Foo // " ++ [128512]%N ++ runes_of_ascii " emoji
+{ } options {
+    // a // b
+    tag // `tick` ""quote"" 'q'
+= //	t
+""""
+    ; u8x = zchar[0  ] }
+MetaData
+    int {")).
+Eval vm_compute in ("<<<M3786>>>" ++ check (runes_of_ascii "root packet rootA {
+    i32 MetaDataX @calculatedFrom(""CRC32"") `line1
+    lin@lengthOfe2`,
+}
+
+MetaData BodyLength {
+    u8 rootA,
+}// c")).
+Eval vm_compute in ("<<<M1725>>>" ++ check (runes_of_ascii "'' root packet /// triple
 rootA {	i32
 MetaDataX@calculatedFrom( ""CRC32"" ) `line1
 line2` , } MetaData BodyLength {
 u8
 rootA, } // c")).
-Eval vm_compute in ("<<<M1665>>>" ++ check (runes_of_ascii "root packet /// triple
+Eval vm_compute in ("<<<M1730>>>" ++ check (runes_of_ascii "root pac#ket /// triple
 rootA {	i32
-MetaDataX@calculatedFrom( ""CRC32"" i64 `line1
+MetaDataX@calculatedFrom( ""CRC32"" ) `line1
 line2` , } MetaData BodyLength {
 u8
 rootA, } // c")).
-Eval vm_compute in ("<<<M1664>>>" ++ check (runes_of_ascii "root packet /// triple
+Eval vm_compute in ("<<<M1692>>>" ++ check (runes_of_ascii "root packet /// triple
 rootA {	i32
-MetaDataX@calculatedFrom( ""CRC32"" `line1
-line2` ) , } MetaData BodyLength {
+MetaDataX@calculatedFrom( ""CRC32"" ) `line1
+line2` , } MetaData BodyLength 
 u8
 rootA, } // c")).
-Eval vm_compute in ("<<<M666>>>" ++ check (runes_of_ascii "  MetaData body
-{i16 // @lengthOf(
-metadata
-//	t
-// packet A { u8 x, }
-,
-float64
-    leftPad
-`
-`, BodyLength Z9_ `" ++ [233]%N ++ runes_of_ascii "`
-    ,}
-")).
-Eval vm_compute in ("<<<M1395>>>" ++ check (runes_of_ascii "options
-{ repeatCount
-=
-u16 // `tick` ""quote"" 'q'
-; float  =  ' ' Logon = string
-;packetx = // " ++ [128512]%N ++ runes_of_ascii " emoji
-3//
-a1=  zchar[7	] }")).
-Eval vm_compute in ("<<<M4189>>>" ++ check (runes_of_ascii "
-
-  packet
-
-    Logon{
-@tag(
-	42
-
-) 
-@rightPad ( // c
-' ') @leftPad( )
-    repeat	trueish
-
-{ string
-    T ,
-} 
-,
-	}
-")).
-Eval vm_compute in ("<<<M1788>>>" ++ check (runes_of_ascii "packet
-    ""x y"" // a // b
-{ i8i8 @calculatedFrom( ""a	b"") `u8 x,` ,
-} options{ float// " ++ [128512]%N ++ runes_of_ascii " emoji
-= f64 i64_
-=//	t
-00 }
-")).
-Eval vm_compute in ("<<<M1892>>>" ++ check (runes_of_ascii "packet
-    Pad // a // b
-{ i8i8 @calculatedFrom( ""a	b"") `u8 x,` ,
-} options{ float// " ++ [128512]%N ++ runes_of_ascii " emoji
-= f64 i6'4_
-=//	t
-00 }
-")).
-Eval vm_compute in ("<<<M3023>>>" ++ check (runes_of_ascii "packet A {
-    Inner {
-        u8 x `a
-    b
-  c`,
-        Deep {
-            u8 y `a
-    b
-  c`,
-        },
-    },
-}")).
-Eval vm_compute in ("<<<M4071>>>" ++ check (runes_of_ascii "  options 
-{
-
-    repeatCount 
-=  '0' 
-roots =
-""\" ++ [233]%N ++ runes_of_ascii """
-    ;  int= f64
-    Packet
-= '\x00'
-;Z9_
-    =
-""a\""b"";
-
-} ")).
-Eval vm_compute in ("<<<M1784>>>" ++ check (runes_of_ascii "=
-    Pad // a // b
-{ i8i8 @calculatedFrom( ""a	b"") `u8 x,` ,
-} options{ float// " ++ [128512]%N ++ runes_of_ascii " emoji
-= f64 i64_
-=//	t
-00 }
-")).
-Eval vm_compute in ("<<<M498>>>" ++ check (runes_of_ascii "packet  options1 {
-    _x string_ , string
-    zchar @lengthOf(f32a// packet A { u8 x, }
-)
-, uint64
-x ,
-    }")).
-Eval vm_compute in ("<<<M1194>>>" ++ check (runes_of_ascii "//	t
-options
-    { // c
-}MetaData asx
-{float64 x_y_z
-,
-}  options	{// packet A { u8 x, }
-stringy = '0' ;
-}")).
-Eval vm_compute in ("<<<M1275>>>" ++ check (runes_of_ascii "root
-packet  len{ @rightPad (
-    ' ' ) @tag(0 ) int16 msg_type `{ , }` ,
-}
+Eval vm_compute in ("<<<M3791>>>" ++ check (runes_of_ascii "
 packet
-    leftPad
-    {	}
+
+    A
+	{
+
+Inner {	match k
+    as	n { 
+[
+
+    1
+, 
+22
+    ,007
+
+,
+4,5
+,66
+
+    ]: B
+,
+
+    }
+
+    ,} ,}
+
 ")).
-Eval vm_compute in ("<<<M3365>>>" ++ check (runes_of_ascii "packet calculatedFrom { @tag( 4294967296 ) u msg_type , char[ 3 ] crc @lengthOf( // c
-len ) `u8 x,` , }")).
-Eval vm_compute in ("<<<M1468>>>" ++ check (runes_of_ascii "root packet Foo // " ++ [128512]%N ++ runes_of_ascii " emoji
+Eval vm_compute in ("<<<M3930>>>" ++ check (runes_of_ascii "options {
+    Header = false
+    float = ""abc"";
+    i64_ = false;
+}
+
+options {
+    //
+    //x
+    repeatCount = ""a\\"";
+}
+//")).
+Eval vm_compute in ("<<<M485>>>" ++ check (runes_of_ascii "options{
+    Pad =	string options1 =  char[ 65535 ] float= 3
+    ;	falsey	=
+    '\x00' // a // b
+x=
+    //x
+    ' '  }
+")).
+Eval vm_compute in ("<<<M1893>>>" ++ check (runes_of_ascii "packet
+    Pad // a // b
+{ caf" ++ [233]%N ++ runes_of_ascii "_1 @calculatedFrom( ""a	b"") `u8 x,` ,
+} options{ float// " ++ [128512]%N ++ runes_of_ascii " emoji
+= f64 i64_
+=//	t
+00 }
+")).
+Eval vm_compute in ("<<<M1493>>>" ++ check (runes_of_ascii "root packet Foo // " ++ [128512]%N ++ runes_of_ascii " emoji
 { } options {
     // a // b
     tag // `tick` ""quote"" 'q'
 = //	t
 """"
-    ;")).
-Eval vm_compute in ("<<<M2960>>>" ++ check (runes_of_ascii "packet A {
+    ; u8x = zchar[0  ]")).
+Eval vm_compute in ("<<<M1825>>>" ++ check (runes_of_ascii "packet
+    Pad // a // b
+{ i8i8 @calculatedFrom( ""a	b"") `u8 x,` ,
+ options{ float// " ++ [128512]%N ++ runes_of_ascii " emoji
+= f64 i64_
+=//	t
+00 }
+")).
+Eval vm_compute in ("<<<M1488>>>" ++ check (runes_of_ascii "root packet Foo // " ++ [128512]%N ++ runes_of_ascii " emoji
+{ } options {
+    // a // b
+    tag // `tick` ""quote"" 'q'
+= //	t
+""""
+    ; u8x = zchar[0")).
+Eval vm_compute in ("<<<M757>>>" ++ check (runes_of_ascii "root packet	charz	{ @tag(
+    // trailing space 
+    0123456789 )
+string a1 `// not a comment` , }options {
+}
+
+")).
+Eval vm_compute in ("<<<M4284>>>" ++ check (runes_of_ascii "packet 
+Logon
+{
+	@tag(
+    42
+	)	@rightPad
+( 
+' ' )
+@leftPad
+
+()
+
+repeat trueish{
+
+string T ,} , // c
+  }
+
+")).
+Eval vm_compute in ("<<<M317>>>" ++ check (runes_of_ascii "packet BodyLength
+{
+@calculatedFrom(	""""
+)// c
+char[  42 ]uint8x,} packet  len { uint64 a1  `{ , }`//x
+,}
+")).
+Eval vm_compute in ("<<<M3340>>>" ++ check (runes_of_ascii "packet
+// c
+calculatedFrom { @tag( 4294967296 ) u msg_type , char[ 3 ] crc @lengthOf( len ) `u8 x,` , }")).
+Eval vm_compute in ("<<<M3372>>>" ++ check (runes_of_ascii "packet calculatedFrom { @tag( 4294967296 ) u msg_type , char[ 3 ] crc @lengthOf( len ) `u8 x,`
+// c
+, }")).
+Eval vm_compute in ("<<<M831>>>" ++ check (runes_of_ascii "packet
+    u { }
+MetaData string_ {
+metadata
+    msg_type , } options {pack= true; rootA= true }
+
+")).
+Eval vm_compute in ("<<<M2989>>>" ++ check (runes_of_ascii "packet A {
   match k as n {
-    [""a"", ""bb"", 007, ""d"", ""e"", 66, ""g"", ""h"", 9] : B,
+    [1, 22, 007, 4, 5, 66, 7, 8, 9, 10, 11, 12] : B,
     2 : C
   },
 }")).
-Eval vm_compute in ("<<<M3214>>>" ++ check (runes_of_ascii "// c
-packet Logon { @tag( 42 ) @rightPad ( ' ' ) @leftPad ( ) repeat trueish { string T , } , }")).
-Eval vm_compute in ("<<<M3247>>>" ++ check (runes_of_ascii "packet Logon { @tag( 42 ) @rightPad ( ' ' ) @leftPad ( ) repeat trueish {
-// c
-string T , } , }")).
-Eval vm_compute in ("<<<M2948>>>" ++ check (runes_of_ascii "packet A {
-  match k as n {
-    [""a"", ""bb"", 007, ""d"", ""e"", 66, ""g"", ""h""] : B
-    2 : C
-  },
+Eval vm_compute in ("<<<M3216>>>" ++ check (runes_of_ascii "packet // c
+Logon { @tag( 42 ) @rightPad ( ' ' ) @leftPad ( ) repeat trueish { string T , } , }")).
+Eval vm_compute in ("<<<M3248>>>" ++ check (runes_of_ascii "packet Logon { @tag( 42 ) @rightPad ( ' ' ) @leftPad ( ) repeat trueish { string // c
+T , } , }")).
+Eval vm_compute in ("<<<M3855>>>" ++ check (runes_of_ascii "packet A {
+    match k as n {
+        [""a"", ""bb"", 007, ""d"", ""e""] : B,
+        2 : C,
+    },
 }")).
 Eval vm_compute in ("<<<M1959>>>" ++ check (runes_of_ascii "root root
 packet crc
     { f32a @calculatedFrom( """ ++ [233]%N ++ runes_of_ascii "t" ++ [233]%N ++ runes_of_ascii """ )
     `say ""hi""`, lengthOf `` ,  }")).
-Eval vm_compute in ("<<<M1030>>>" ++ check (runes_of_ascii "packet i8i8 { } options
-    { MetaDataX =
-""it's""  asx = char[
-    65535
-    ]  ;
-    }")).
-Eval vm_compute in ("<<<M2043>>>" ++ check (runes_of_ascii "root
+Eval vm_compute in ("<<<M2012>>>" ++ check (runes_of_ascii "root
 packet crc
     { f32a @calculatedFrom( """ ++ [233]%N ++ runes_of_ascii "t" ++ [233]%N ++ runes_of_ascii """ )
-    \`say ""hi""`, lengthOf `` ,  }")).
-Eval vm_compute in ("<<<M972>>>" ++ check (runes_of_ascii "options	{ string_ =  '\x00'
-    rootA // trailing space 
-= u8; Foo =""a\\""//
-;
-    }
-")).
-Eval vm_compute in ("<<<M2932>>>" ++ check (runes_of_ascii "packet A {
-  match k as n {
-    [1, 22, ""c c"", 4, 5, ""f"", 7] : B,
-    2 : C
-  },
+    `say ""hi""`, lengthOf `` `` ,  }")).
+Eval vm_compute in ("<<<M4155>>>" ++ check (runes_of_ascii "packet A {
+    match k as n {
+        [1, 22, ""c c"", 4, 5] : B,
+        2 : C,
+    },
 }")).
-Eval vm_compute in ("<<<M3306>>>" ++ check (runes_of_ascii "packet o { @tag( 42 ) repeat // c
-x { char[ 0123456789 ] i64_ , } , } options { }")).
-Eval vm_compute in ("<<<M231>>>" ++ check (runes_of_ascii "MetaData Z9_
-    { a1
-//
-/// triple
-Z9_
-    , zchar[ 10	] x
-    , } options { }
+Eval vm_compute in ("<<<M1983>>>" ++ check (runes_of_ascii "root
+packet crc
+    { f32a """ ++ [233]%N ++ runes_of_ascii "t" ++ [233]%N ++ runes_of_ascii """ @calculatedFrom( )
+    `say ""hi""`, lengthOf `` ,  }")).
+Eval vm_compute in ("<<<M3631>>>" ++ check (runes_of_ascii "root packet x_y_z {
+    // a // b
+    // packet A { u8 x, }
+    repeat falsey `" ++ [233]%N ++ runes_of_ascii "`,
+}")).
+Eval vm_compute in ("<<<M331>>>" ++ check (runes_of_ascii "MetaData
+// a // b
+//	t
+rootA { } options //
+{ tag // `tick` ""quote"" 'q'
+=
+3; }
 ")).
-Eval vm_compute in ("<<<M234>>>" ++ check (runes_of_ascii "packet	As{ match  repeatCount as metadata
-{ 007 : //x
-crc, ""a	b"" :
-    A} , }
-")).
-Eval vm_compute in ("<<<M4427>>>" ++ check (runes_of_ascii "
-
-  packet
-    A
-
-{match
-k
-as
-n
-	{ [ 1,22
-    ,	""c c""
-]  :B
-2
-	:
-C}
-    ,} ")).
-Eval vm_compute in ("<<<M1072>>>" ++ check (runes_of_ascii "packet
-    o {
-@rightPad( )// trailing space 
-x_y_z calculatedFrom , }
-
-")).
-Eval vm_compute in ("<<<M4089>>>" ++ check (runes_of_ascii "//x
-  	packet zchar
-
-{@calculatedFrom( ""CRC32""
-	)
-
-    lengthOf	, }
-")).
-Eval vm_compute in ("<<<M3410>>>" ++ check (runes_of_ascii "MetaData _x { zchar[ 4294967296 ] lengthOf `// not a comment`
+Eval vm_compute in ("<<<M3315>>>" ++ check (runes_of_ascii "packet o { @tag( 42 ) repeat x { char[ 0123456789
 // c
-, }")).
-Eval vm_compute in ("<<<M2187>>>" ++ check (runes_of_ascii "root
-    // `tick` ""quote"" 'q'
-    packet As { trueish Packet , } }
-")).
-Eval vm_compute in ("<<<M4069>>>" ++ check (runes_of_ascii "  MetaData zchar
-
-    {zchar[ 3
-	]
-
-    Pad
-
-    ,	}
-	// c
-")).
-Eval vm_compute in ("<<<M939>>>" ++ check (runes_of_ascii "packet  metadata{ calculatedFrom Packet ,}
-// packet A { u8 x, }
-")).
-Eval vm_compute in ("<<<M2869>>>" ++ check (runes_of_ascii "packet A {
+] i64_ , } , } options { }")).
+Eval vm_compute in ("<<<M3179>>>" ++ check (runes_of_ascii "packet A { u16 // a
+ len // b
+ @lengthOf( // c
+ body // d
+ ) // e
+ `d` // f
+ , }")).
+Eval vm_compute in ("<<<M2925>>>" ++ check (runes_of_ascii "packet A {
   match k as n {
-    [""a"", 22] : B,
+    [1, 22, 007, 4, 5, 66, 7] : B
     2 : C
   },
 }")).
-Eval vm_compute in ("<<<M3432>>>" ++ check (runes_of_ascii "root 
-packet 
-P
+Eval vm_compute in ("<<<M3581>>>" ++ check (runes_of_ascii "packet 
+      //	t
+    //
 
-{
+	packetx 
+{ repeat	zchar[
+	007
+	]Foo
 
-    hdr
-{ 
-u8
-a  ,}
-    ,
-u8
-x ,
-
-}
-
+    , }
 ")).
-Eval vm_compute in ("<<<M3176>>>" ++ check (runes_of_ascii "packet A { @leftPad() char[4] x, @rightPad( ) zchar[2] y, }")).
+Eval vm_compute in ("<<<M702>>>" ++ check (runes_of_ascii "// packet A { u8 x, }
+options{u
+=string ;chars=
+""" ++ [128512]%N ++ runes_of_ascii """ ; MetaDataX =false }
+")).
+Eval vm_compute in ("<<<M3394>>>" ++ check (runes_of_ascii "
+// c
+MetaData _x { zchar[ 4294967296 ] lengthOf `// not a comment` , }")).
+Eval vm_compute in ("<<<M3407>>>" ++ check (runes_of_ascii "MetaData _x { zchar[ 4294967296 ] lengthOf // c
+`// not a comment` , }")).
+Eval vm_compute in ("<<<M2010>>>" ++ check (runes_of_ascii "root
+packet crc
+    { f32a @calculatedFrom( """ ++ [233]%N ++ runes_of_ascii "t" ++ [233]%N ++ runes_of_ascii """ )
+    `say ""hi""`,")).
+Eval vm_compute in ("<<<M2877>>>" ++ check (runes_of_ascii "packet A {
+  match k as n {
+    [1, ""bb"", 007] : B
+    2 : C
+  },
+}")).
+Eval vm_compute in ("<<<M428>>>" ++ check (runes_of_ascii "options{u128=
+    '0' ; u128 = ' ' Logon=char[] A=
+    char[];	}
+")).
+Eval vm_compute in ("<<<M2179>>>" ++ check (runes_of_ascii "root
+    // `tick` ""quote"" 'q'
+    packet As { trueish u64 , }
+")).
+Eval vm_compute in ("<<<M2863>>>" ++ check (runes_of_ascii "packet A {
+  match k as n {
+    [1, 22] : B,
+    2 : C
+  },
+}")).
+Eval vm_compute in ("<<<M3587>>>" ++ check (runes_of_ascii "
+
+  packet  A
+{zchar[
+
+    3 ]
+    x
+	@lengthOf(
+y) ,
+	}
+")).
 Eval vm_compute in ("<<<M2375>>>" ++ check (runes_of_ascii "MetaData Packet { }packet	asx  { @lengthOf( asx) falsey`c")).
-Eval vm_compute in ("<<<M1899>>>" ++ check (runes_of_ascii "
-'\x00'	As { @calculatedFrom(//x
-""{,}""	)lengthOf , } 	 ")).
+Eval vm_compute in ("<<<M1814>>>" ++ check (runes_of_ascii "packet
+    Pad // a // b
+{ i8i8 @calculatedFrom( ""a	b""")).
 Eval vm_compute in ("<<<M2420>>>" ++ check (runes_of_ascii "MetaData caf" ++ [233]%N ++ runes_of_ascii "_1
 {
 i64
 chars	, } // `tick` ""quote"" 'q'")).
-Eval vm_compute in ("<<<M1241>>>" ++ check (runes_of_ascii "MetaData u8x
-{
-uint32 metadata
-`line1
-line2` , }
-")).
-Eval vm_compute in ("<<<M2419>>>" ++ check (runes_of_ascii "MetaData A
+Eval vm_compute in ("<<<M1938>>>" ++ check (runes_of_ascii "
+packet	As { @calculatedFrom(//x
+""{,}""	)lengthOf ,")).
+Eval vm_compute in ("<<<M2820>>>" ++ check (runes_of_ascii "match char[] , uint64 as i64 root uint32 MetaData")).
+Eval vm_compute in ("<<<M1768>>>" ++ check (runes_of_ascii "options { }optio''ns {  } // `tick` ""quote"" 'q'")).
+Eval vm_compute in ("<<<M1778>>>" ++ check (runes_of_ascii "options { }options {  } // `tick` ""quote"" '<q'")).
+Eval vm_compute in ("<<<M420>>>" ++ check (runes_of_ascii "options {
+// " ++ [27880; 37322]%N ++ runes_of_ascii "
+//
+calculatedFrom
+= false }")).
+Eval vm_compute in ("<<<M3036>>>" ++ check (runes_of_ascii "MetaData M {
+    u8 x `x
+`,
+    T t `x
+`,
+}")).
+Eval vm_compute in ("<<<M2413>>>" ++ check (runes_of_ascii "[ A
 {
 i64
-chars	, }# // `tick` ""quote"" 'q'")).
-Eval vm_compute in ("<<<M1748>>>" ++ check (runes_of_ascii "options { } }options {  } // `tick` ""quote"" 'q'")).
-Eval vm_compute in ("<<<M2120>>>" ++ check (runes_of_ascii "MetaData x
-{// " ++ [128512]%N ++ runes_of_ascii " emoji
-i16 stringy stringy , }")).
-Eval vm_compute in ("<<<M1756>>>" ++ check (runes_of_ascii "options { }options   } // `tick` ""quote"" 'q'")).
-Eval vm_compute in ("<<<M54>>>" ++ check (runes_of_ascii "  MetaData
-u128{ uint32 lengthOf ,
-    }
-")).
-Eval vm_compute in ("<<<M3025>>>" ++ check (runes_of_ascii "root packet A {
-    u8 x `a
-    b
-  c`,
-}")).
-Eval vm_compute in ("<<<M2756>>>" ++ check (runes_of_ascii "nueM}|d!jTeH%\GJjof8G!IY}Og26Y'e]tl6awM""")).
-Eval vm_compute in ("<<<M2138>>>" ++ check (runes_of_ascii "/MetaData x
-{// " ++ [128512]%N ++ runes_of_ascii " emoji
-i16 stringy , }")).
+chars	, } // `tick` ""quote"" 'q'")).
+Eval vm_compute in ("<<<M2744>>>" ++ check (runes_of_ascii "!}#nP]WB#d!4m &%rd=1Z\-""oa^ntV9;N*>hg2cq")).
+Eval vm_compute in ("<<<M794>>>" ++ check (runes_of_ascii "// " ++ [128512]%N ++ runes_of_ascii " emoji
+options { MetaDataX=string }")).
 Eval vm_compute in ("<<<M2604>>>" ++ check (runes_of_ascii "packet A { match k as n { 1 : B,, }, }")).
-Eval vm_compute in ("<<<M2850>>>" ++ check (runes_of_ascii "9h~{]Ry1}z""O-Eq~&O&et9""E9C]I0lrU:UOAN")).
-Eval vm_compute in ("<<<M2601>>>" ++ check (runes_of_ascii "packet A { match k as n { 1 : B } }")).
-Eval vm_compute in ("<<<M1240>>>" ++ check (runes_of_ascii "options { Packet	= ""packet"" ; }
+Eval vm_compute in ("<<<M2729>>>" ++ check (runes_of_ascii "MetaData match @lengthOf( match 007 )")).
+Eval vm_compute in ("<<<M2639>>>" ++ check (runes_of_ascii "root packet A { } root packet B { }")).
+Eval vm_compute in ("<<<M2610>>>" ++ check (runes_of_ascii "packet A { match k n { 1 : B }, }")).
+Eval vm_compute in ("<<<M661>>>" ++ check (runes_of_ascii "options  { metadata=""packet""	}
 ")).
-Eval vm_compute in ("<<<M3619>>>" ++ check (runes_of_ascii "packet A {
-    x @lengthOf(y),
+Eval vm_compute in ("<<<M3068>>>" ++ check (runes_of_ascii "packet A {
+ u8 x `d" ++ [12288]%N ++ runes_of_ascii "`, // c" ++ [12288]%N ++ runes_of_ascii "
 }")).
-Eval vm_compute in ("<<<M2783>>>" ++ check (runes_of_ascii "U^}|d}OPKLGCG6_a=z(#7;cXSYr;lQ")).
-Eval vm_compute in ("<<<M2067>>>" ++ check (runes_of_ascii "MetaData A { u64 pack pack, }")).
-Eval vm_compute in ("<<<M4497>>>" ++ check (runes_of_ascii "MetaData 
-Packet	{
-
-    } ")).
-Eval vm_compute in ("<<<M2057>>>" ++ check (runes_of_ascii "MetaData A { { u64 pack, }")).
-Eval vm_compute in ("<<<M2097>>>" ++ check (runes_of_ascii "MetaData A { |u64 pack, }")).
-Eval vm_compute in ("<<<M2068>>>" ++ check (runes_of_ascii "MetaData A { u64 ,pack }")).
-Eval vm_compute in ("<<<M2051>>>" ++ check (runes_of_ascii "MetaData  { u64 pack, }")).
-Eval vm_compute in ("<<<M2079>>>" ++ check (runes_of_ascii "MetaData A { u64 pack,")).
-Eval vm_compute in ("<<<M2857>>>" ++ check ([65533; 65533]%N ++ runes_of_ascii "0" ++ [65533; 65533; 65533; 65533]%N ++ runes_of_ascii "%?" ++ [65533; 11]%N ++ runes_of_ascii "h" ++ [65533; 65533]%N ++ runes_of_ascii "p" ++ [65533; 65533]%N ++ runes_of_ascii "|" ++ [65533; 65533; 65533]%N)).
-Eval vm_compute in ("<<<M563>>>" ++ check (runes_of_ascii "
-root
-packet o {}")).
-Eval vm_compute in ("<<<M2026>>>" ++ check (runes_of_ascii "root
-packet crc
- ")).
-Eval vm_compute in ("<<<M3111>>>" ++ check (runes_of_ascii "packet A {
+Eval vm_compute in ("<<<M3162>>>" ++ check (runes_of_ascii "MetaData M {
+}// c
+options {}")).
+Eval vm_compute in ("<<<M1202>>>" ++ check (runes_of_ascii "options {tag = ""it's"" ;
 }
-// c" ++ [8287]%N)).
-Eval vm_compute in ("<<<M2732>>>" ++ check (runes_of_ascii " TdlH$1;l|=o#;&v&")).
-Eval vm_compute in ("<<<M2638>>>" ++ check (runes_of_ascii "root options { }")).
-Eval vm_compute in ("<<<M4490>>>" ++ check (runes_of_ascii "packet f32a {
-}")).
-Eval vm_compute in ("<<<M2410>>>" ++ check (runes_of_ascii "MetaData A
-{")).
-Eval vm_compute in ("<<<M3575>>>" ++ check (runes_of_ascii "// " ++ [128512]%N ++ runes_of_ascii " emoji")).
-Eval vm_compute in ("<<<M2435>>>" ++ check (runes_of_ascii "zchar[]")).
-Eval vm_compute in ("<<<M2775>>>" ++ check (runes_of_ascii ";>/7""#")).
-Eval vm_compute in ("<<<M2811>>>" ++ check (runes_of_ascii "}#.UJ")).
-Eval vm_compute in ("<<<M2513>>>" ++ check (runes_of_ascii """\\""")).
-Eval vm_compute in ("<<<M2526>>>" ++ check (runes_of_ascii "1 2")).
-Eval vm_compute in ("<<<M2534>>>" ++ check (runes_of_ascii "_1")).
+")).
+Eval vm_compute in ("<<<M2084>>>" ++ check (runes_of_ascii "MetaData A { u64 pack\ , }")).
+Eval vm_compute in ("<<<M2239>>>" ++ check (runes_of_ascii "MetaData Packet { }packet")).
+Eval vm_compute in ("<<<M2098>>>" ++ check (runes_of_ascii "MetaData A { u64 " ++ [252]%N ++ runes_of_ascii "ber, }")).
+Eval vm_compute in ("<<<M2051>>>" ++ check (runes_of_ascii "MetaData  { u64 pack, }")).
+Eval vm_compute in ("<<<M1980>>>" ++ check (runes_of_ascii "root
+packet crc
+    {")).
+Eval vm_compute in ("<<<M3154>>>" ++ check (runes_of_ascii "// a// bpacket A {}")).
+Eval vm_compute in ("<<<M876>>>" ++ check (runes_of_ascii "// @lengthOf(
+ //	t")).
+Eval vm_compute in ("<<<M914>>>" ++ check (runes_of_ascii "packet
+    As { }
+")).
+Eval vm_compute in ("<<<M3101>>>" ++ check (runes_of_ascii "packet A {
+}
+// c" ++ [8233]%N)).
+Eval vm_compute in ("<<<M2653>>>" ++ check (runes_of_ascii "options { a = 1 }")).
+Eval vm_compute in ("<<<M2070>>>" ++ check (runes_of_ascii "MetaData A { u64")).
+Eval vm_compute in ("<<<M1794>>>" ++ check (runes_of_ascii "packet
+    Pad")).
+Eval vm_compute in ("<<<M2556>>>" ++ check (runes_of_ascii """" ++ [233]%N ++ runes_of_ascii """ `" ++ [21517]%N ++ runes_of_ascii "` // " ++ [252]%N)).
+Eval vm_compute in ("<<<M1940>>>" ++ check (runes_of_ascii "
+packet	A")).
+Eval vm_compute in ("<<<M2489>>>" ++ check (runes_of_ascii "@tag(1)")).
+Eval vm_compute in ("<<<M1334>>>" ++ check (runes_of_ascii "// c
+")).
+Eval vm_compute in ("<<<M3095>>>" ++ check (runes_of_ascii "// c" ++ [8232]%N)).
+Eval vm_compute in ("<<<M2539>>>" ++ check (runes_of_ascii "{}{}")).
+Eval vm_compute in ("<<<M2546>>>" ++ check (runes_of_ascii "a" ++ [11]%N ++ runes_of_ascii "b")).
+Eval vm_compute in ("<<<M2736>>>" ++ check (runes_of_ascii "u!")).
